@@ -12,1563 +12,1520 @@ Definition show_fres (r : fres) : string :=
   end.
 Definition check (rs : list rune) : string := digest (show_fres (format_res rs)).
 Definition full (rs : list rune) : string := show_fres (format_res rs).
-Eval vm_compute in ("<<<M4288>>>" ++ check (runes_of_ascii "packet u {
-    @tag(007)
-    @calculatedFrom("""")
-    match i64_ as roots {
-        [0, 3, ""`tick`"", ""1""] : rootA,
-        //x
-        // c
-        00 : pack,
-        [0123456789, 0123456789, 255, ""1""] : msg_type,
-        10 : chars,
-        ""it's"" : o,
-    },
-    BodyLength {
-        char[255] metadata `
-                `,
-    },
-    options1 {
-        match asx as packetx {
-            ""abc"" : u128,
-            [3, 4294967296, 4294967296, """", """ ++ [28040; 24687]%N ++ runes_of_ascii """] : leftPad,
-            0 : Header,
-            """ ++ [233]%N ++ runes_of_ascii "t" ++ [233]%N ++ runes_of_ascii """ : T,
-        },
-        repeat char[] Z9_ `{ , }`,
-    },
-    @calculatedFrom(""packet"")
-    @calculatedFrom(""x y"")
-    @tag(255)
-    leftPad {
-        repeat leftPad {
-            float32 falsey @lengthOf(falsey) `a\`,
-            zchar[0] matchKey,
-            zchar[4294967296] a1,
-            match packetx as u {
-                [
-                    00, 00, ""abc"", """ ++ [233]%N ++ runes_of_ascii "t" ++ [233]%N ++ runes_of_ascii """, ""a\\"",
-                    ""{,}""
-                ] : BodyLength,
-                """ ++ [233]%N ++ runes_of_ascii "t" ++ [233]%N ++ runes_of_ascii """ : asx,
-                [007, ""a	b""] : body,
-                [00, 0123456789] : crc,
-            },
-        },
-    },
-    repeat uint8x o `doc`,
-    @tag(65535)
-    u16 Logon @lengthOf(uint8x) `a\`,
-    f32a {
-        repeat char[] matchKey `
-                `,
-        zchar[4294967296] i64_,
-        // packet A { u8 x, }
-        repeat lengthOf {
-            repeat i16 matchKey,
-            u8 falsey,
-            i32 Pad @lengthOf(u8x) ``,
-            charz `crlf
-                        line`,
-        },
-        packetx {
-            int64 trueish,
-            char[42] u @lengthOf(u) `// not a comment`,
-            repeat char[1] i8i8,
-            match x_y_z as u8x {
-                [""\n""] : calculatedFrom,
-            },
-        },
-    },
-    @leftPad('0')
-    As @calculatedFrom(""it's""),
-    @calculatedFrom(""CRC32"")
-    x_y_z @lengthOf(crc),
-    @leftPad('0')
-    @calculatedFrom(""`tick`"")
-    @tag(10)
-    char[42] Z9_ @calculatedFrom(""abc""),
-}
-
-MetaData repeatCount {
-    i8 u `tab	here`,
-    char[255] u,
-    u32 msg_type `doc`,
-    i64_ _x,
-}
-
-options {
-    repeatCount = 255;
-    x_y_z = ' ';
-    charz = uint8;
-    Packet = false
-    BodyLength = true;
-}
-
-options {
-    asx = """ ++ [128512]%N ++ runes_of_ascii """
-    uint8x = char[4294967296];
-    u = '0'
-}")).
-Eval vm_compute in ("<<<M3528>>>" ++ check (runes_of_ascii "options { // c1a
-  // c1b
-StringPrefixLenType // c2
-=
-    // c3
-u16 // c4a
-  // c4b
-; // c5a
-  // c5b
-ArrayPrefixLenType // c6
-= u32 // c8
-;
-    // c9
-FixedStringPadFromLeft
-    // c10
-=
-    // c11
-false ; FixedStringPadChar // c14a
-  // c14b
-= '0' ; // c17
-}
-    // c18
-packet
-    // c19
-Logout
-    // c20
-{ // c21a
-  // c21b
-f64 // c22
-f1
-    // c23
-, // c24
-i16 // c25
-Note // c26
-,
-    // c27
-@rightPad
-    // c28
-( // c29a
-  // c29b
-'\x00' // c30
-) // c31a
-  // c31b
-char[ // c32a
-  // c32b
-11 // c33
-] // c34
-Flags , // c36
-} // c37
-packet
-    // c38
-Cancel
-    // c39
-{
-    // c40
-float64
-    // c41
-msgKind
-    // c42
-, // c43a
-  // c43b
-} // c44
-packet Reject { // c47a
-  // c47b
-InQty43 { float32 // c50
-sym
-    // c51
-,
-    // c52
-char[ // c53a
-  // c53b
-10 // c54
-] // c55a
-  // c55b
-Tail
-    // c56
-, // c57
-uint8 // c58a
-  // c58b
-venue , // c60
-uint16 // c61a
-  // c61b
-f1
-    // c62
-,
-    // c63
-char[ // c64
-9 ] // c66
-Acct // c67a
-  // c67b
-, }
-    // c69
-, }
-    // c71
-packet
-    // c72
-Trade // c73
-{ // c74a
-  // c74b
-char[] // c75a
-  // c75b
-x // c76a
-  // c76b
-,
-    // c77
-zchar[ // c78a
-  // c78b
-6 ] // c80
-Note // c81
-, // c82
-repeat // c83a
-  // c83b
-Reject // c84
-, // c85
-}
-    // c86
-root packet // c88
-Order // c89
-{ // c90a
-  // c90b
-Cancel // c91a
-  // c91b
-,
-    // c92
-Logout , // c94
-u64 // c95a
-  // c95b
-Acct , // c97
-u32 // c98a
-  // c98b
-OrderId // c99a
-  // c99b
-, match // c101a
-  // c101b
-OrderId // c102
-as Body // c104
-{ [ 127 // c107
-, // c108
-70 // c109
-] // c110
-: // c111
-Reject
-    // c112
-, 177
-    // c114
-: // c115a
-  // c115b
-Trade // c116a
-  // c116b
-, // c117
-58 // c118
-:
-    // c119
-Logout ,
-    // c121
-75 :
-    // c123
-Cancel // c124
-, // c125
-} // c126a
-  // c126b
-, // c127
-u32 // c128
-Tail @calculatedFrom( // c130
-""CRC32"" // c131
-)
-    // c132
-, } ")).
-Eval vm_compute in ("<<<M4357>>>" ++ check (runes_of_ascii "root packet len {
-    @lengthOf(A)
-    repeat u64 packetx,
-    @calculatedFrom(""a	b"")
-    repeat charz {
-        BodyLength calculatedFrom,
-        leftPad `it's`,
-        int32 msg_type,
-        float64 i64_,
-    },
-    // c
-    string MetaDataX @lengthOf(roots),
-    @lengthOf(len)
-    @lengthOf(Logon)
-    // " ++ [128512]%N ++ runes_of_ascii " emoji
-    // @lengthOf(
-    calculatedFrom @calculatedFrom(""// no comment""),
-    zchar[3] MetaDataX @calculatedFrom(""it's"") `a\`,
-    @leftPad('0')
-    match Foo as As {
-        [255, ""{,}""] : metadata,
-        ""{,}"" : Header,
-        // trailing space 
-        [""\n""] : stringy,
-        ""a	b"" : x,
-    },
-    @tag(0123456789)
-    Foo {
-        char[0] rootA,
-    },
-    // packet A { u8 x, }
-    i64_ leftPad `a\`,
-    string A,
-    match BodyLength as float {
-        7 : MetaDataX,
-        007 : int,
-    },
-}
-
-MetaData crc {
-    u8 o `crlf
-    line`,
-}
-
-// " ++ [128512]%N ++ runes_of_ascii " emoji
-packet crc {
-    repeat uint32 Foo `a\`,/// triple
-    a1,
-    @rightPad(' ')
-    repeat roots,
-    @calculatedFrom(""" ++ [233]%N ++ runes_of_ascii "t" ++ [233]%N ++ runes_of_ascii """)
-    @rightPad()
-    BodyLength,
-    repeat x_y_z ``,
-    @rightPad()
-    repeat string pack `
-    `,
-    @calculatedFrom(""" ++ [128512]%N ++ runes_of_ascii """)
-    int64 Foo,
-    char[65535] Foo @lengthOf(BodyLength),
-    @lengthOf(charz)
-    //
-    trueish charz,
-}
-
-packet msg_type {
-    u32 Foo `line1
-    line2`,
-    T {
-        pack,
-        char[] int,
-        zchar[1] _x @lengthOf(Pad) `it's`,
-    },
-    msg_type,
-    falsey lengthOf,
-    char[4294967296] string_ @lengthOf(Pad),
-    @calculatedFrom(""\n"")
-    //
-    o @lengthOf(options1),
-}
-
-// c
-packet u {
-}")).
-Eval vm_compute in ("<<<M1405>>>" ++ check (runes_of_ascii "options {
-    StringPrefixLenType = u16;
-    ArrayPrefixLenType = u16;
-}
-
-packet SampleBinary {
-    uint16 MsgType `" ++ [28040; 24687; 31867; 22411]%N ++ runes_of_ascii "`,
-    u16 BodyLenght @lengthOf(Body) `" ++ [28040; 24687; 20307; 38271; 24230]%N ++ runes_of_ascii "`,
-    match MsgType as Body {
-        1 : Logon,
-        2 : Logout,
-        3 : Heartbeat,
-        4 : RiskControlRequest,
-        5 : RiskControlResponse,
-    },
-    @calculatedFrom(""CRC32"")
-    u32 Ckecksum `" ++ [26657; 39564; 21644]%N ++ runes_of_ascii "`,
-}
-
-packet Logon {
-    @leftPad('0')
-    char[10] UserName `" ++ [29992; 25143; 21517]%N ++ runes_of_ascii "`,
-    string Password `" ++ [23494; 30721]%N ++ runes_of_ascii "`,
-    uint64 ClientId `" ++ [23458; 25143; 31471]%N ++ runes_of_ascii "ID`,
-    u16 HeartbeatInterval `" ++ [24515; 36339; 38388; 38548]%N ++ runes_of_ascii "`,
-}
-
-packet Logout {
-    @rightPad('0')
-    char[10] UserName `" ++ [29992; 25143; 21517]%N ++ runes_of_ascii "`,
-    uint64 ClientId `" ++ [23458; 25143; 31471]%N ++ runes_of_ascii "ID`,
-}
-
-packet Heartbeat {
-}
-
-packet RiskControlRequest {
-    string UniqueOrderId `" ++ [21807; 19968; 35746; 21333; 21495]%N ++ runes_of_ascii "`,
-    char[16] ClOrdID `" ++ [23458; 25143; 35746; 21333; 21495]%N ++ runes_of_ascii "`,
-    char[3] MarketID `" ++ [24066; 22330]%N ++ runes_of_ascii "id`,
-    char[12] SecurityID `" ++ [35777; 21048; 20195; 30721]%N ++ runes_of_ascii "`,
-    char Side `" ++ [20080; 21334; 26041; 21521]%N ++ runes_of_ascii "`,
-    char OrderType `" ++ [35746; 21333; 31867; 22411]%N ++ runes_of_ascii "`,
-    u64 Price `" ++ [20215; 26684]%N ++ runes_of_ascii "`,
-    u32 Qty `" ++ [25968; 37327]%N ++ runes_of_ascii "`,
-    repeat string ExtraInfo `" ++ [38468; 21152; 20449; 24687]%N ++ runes_of_ascii "`,
-    repeat SubOrder {
-        char[16] ClOrdID `" ++ [23376; 35746; 21333; 21495]%N ++ runes_of_ascii "`,
-        u64 Price `" ++ [23376; 35746; 21333; 20215; 26684]%N ++ runes_of_ascii "`,
-        u32 Qty `" ++ [23376; 35746; 21333; 25968; 37327]%N ++ runes_of_ascii "`,
-    },
-}
-
-packet RiskControlResponse {
-    string UniqueOrderId `" ++ [21807; 19968; 35746; 21333; 21495]%N ++ runes_of_ascii "`,
-    i32 Status `" ++ [29366; 24577]%N ++ runes_of_ascii "`,
-    string Msg `" ++ [32467; 26524; 20449; 24687]%N ++ runes_of_ascii "`,
-    repeat Detail,
-}
-
-packet Detail {
-    string RuleName `" ++ [35268; 21017; 21517; 31216]%N ++ runes_of_ascii "`,
-    u16 Code `" ++ [21407; 22240; 20195; 30721]%N ++ runes_of_ascii "`,
-}")).
-Eval vm_compute in ("<<<M3927>>>" ++ check (runes_of_ascii "packet matchKey {
-    string stringy `tab	here`,
-}
-
-root packet Z9_ {
-    @lengthOf(o)
-    @calculatedFrom(""" ++ [128512]%N ++ runes_of_ascii """)
-    @lengthOf(matchKey)
-    u {
-        string msg_type,
-        pack {
-            uint64 As @lengthOf(u128),// `tick` ""quote"" 'q'
-            repeat i64_ `crlf
-            line`,
-        },
-    },
-    @lengthOf(len)
-    match rootA as stringy {
-        [
-            65535, 65535, 65535, 10, ""`tick`"",
-            ""a\""b"", ""abc""
-        ] : options1,
-        ""1"" : a1,
-        255 : As,
-        """" : metadata,
-        4294967296 : body,
-    },
-    repeat u8x,
-    @lengthOf(asx)
-    @tag(10)
-    @calculatedFrom(""\n"")
-    match Logon as options1 {
-        ""CRC32"" : charz,
-        [10, 65535, ""\n"", """ ++ [233]%N ++ runes_of_ascii "t" ++ [233]%N ++ runes_of_ascii """] : As,
-        // packet A { u8 x, }
-        [4294967296] : repeatCount,
-    },
-    @tag(007)
-    @leftPad('0')
-    @leftPad(' ')
-    i16 u128 @calculatedFrom(""packet""),
-    @leftPad()
-    x @calculatedFrom(""\n"") `a\`,
-    repeat zchar {
-        zchar[007] Foo,
-    },
-    @tag(42)
-    match chars as metadata {
-        [""{,}""] : calculatedFrom,
-        0 : x,
-        4294967296 : leftPad,
-        [42] : trueish,
-        // packet A { u8 x, }
-    },
-}
-
-options {
-}")).
-Eval vm_compute in ("<<<M929>>>" ++ check (runes_of_ascii "packet	string_ // packet A { u8 x, }
-{ @lengthOf( x_y_z// " ++ [128512]%N ++ runes_of_ascii " emoji
-) u8x // @lengthOf(
-@lengthOf( MetaDataX
-) , match u128 as calculatedFrom
-    { ""// no comment"" :
-    Foo } ,@tag(
-255	)f32a body , f64 i64_
-`two words`	, @tag( 7  ) @leftPad (
-)
-// c
-// a // b
-@calculatedFrom( """ ++ [233]%N ++ runes_of_ascii "t" ++ [233]%N ++ runes_of_ascii """ ) uint16 u @lengthOf( i64_	) `tab	here` , @lengthOf( options1 )
-    roots {
-string
-    x@calculatedFrom( ""1""	)
-,
-len
-`say ""hi""` ,
-    rootA @lengthOf( crc )
-    //	t
-    , i64_ @lengthOf( Logon )
-    // trailing space 
-    `doc` , }
-//
-//
-, Packet @calculatedFrom( ""abc"" )
-,	@tag( 7
-) @lengthOf( crc )match crc  as Z9_{42
-    : u128 10: Packet
+Eval vm_compute in ("<<<M134>>>" ++ check (runes_of_ascii "packet int
+    {
+match Pad as	Z9_ { [65535,
+    ""// no comment"" , ""a	b""//x
+, // " ++ [128512]%N ++ runes_of_ascii " emoji
+""CRC32"" ,
+00 , 0123456789 , 0]
+:  Z9_
+4294967296
+: stringy ,""""//
+: f32a
     ,
-    ""packet"" : repeatCount[ """ ++ [128512]%N ++ runes_of_ascii """
-, ""abc""// " ++ [27880; 37322]%N ++ runes_of_ascii "
-] : u8x[
-    ""a\""b"" /// triple
-, 42
-]:  rootA
-,
-[ 007
-, ""1"" ,
-    //	t
-    """ ++ [233]%N ++ runes_of_ascii "t" ++ [233]%N ++ runes_of_ascii """ ] : chars
-    ,
-    }
-    , }	root  packet	u {
-    @calculatedFrom( ""CRC32"") _x
-@calculatedFrom(""\" ++ [233]%N ++ runes_of_ascii """), calculatedFrom lengthOf  ,@rightPad
-    (	)uint32 zchar
-@calculatedFrom( """ ++ [233]%N ++ runes_of_ascii "t" ++ [233]%N ++ runes_of_ascii """) , A,
-    } root packet int{
-// `tick` ""quote"" 'q'
-// `tick` ""quote"" 'q'
-char stringy `a\` , // trailing space 
-}
-    options {Z9_//	t
-= ""abc"";crc = ' '
-; matchKey
-= 00
-    ;}
-")).
-Eval vm_compute in ("<<<M196>>>" ++ check (runes_of_ascii "packet
-a1
-    { @rightPad
-    ( ' '  ) repeat	a1 ,
-    //	t
-    repeat
-float32 i8i8	`two words`, @lengthOf( A ) float zchar ,@rightPad(
-'0'
-)	uint32 o `doc`
-, @calculatedFrom( ""packet""
-    )	repeat
-asx `crlf
-line`//	t
-, @tag( 007 )
-@calculatedFrom(	""CRC32""
-)repeat uint64 A `line1
-line2` , @leftPad ( '\x00'
-)
-// packet A { u8 x, }
-//x
-string stringy `` , @rightPad( '\x00' ) @tag( 255 /// triple
-)
-body
-    @lengthOf( Z9_	)
-,match
-x_y_z
-// packet A { u8 x, }
-// " ++ [128512]%N ++ runes_of_ascii " emoji
-as
-falsey{""\" ++ [233]%N ++ runes_of_ascii """: options1
-, } ,Logon falsey
-// c
+"""" :
+//	t
 // " ++ [27880; 37322]%N ++ runes_of_ascii "
-`say ""hi""`
-, } packet// " ++ [128512]%N ++ runes_of_ascii " emoji
-Foo { }options {
-// @lengthOf(
-// `tick` ""quote"" 'q'
-f32a
-=	""a\""b"" ;
-float= '0' ;  calculatedFrom
-    = 65535
-    ; msg_type= '0';
-    // trailing space 
-    A = """"
-} root packet
-string_ {
-match float as u128{ [ ""\n""
-]	:// trailing space 
-Packet , }
-    ,} packet charz { lengthOf @calculatedFrom(
-    // " ++ [128512]%N ++ runes_of_ascii " emoji
-    """ ++ [28040; 24687]%N ++ runes_of_ascii """)
-,
-    @leftPad
-( ' ' ) repeat chars`" ++ [28040; 24687; 31867; 22411]%N ++ runes_of_ascii "`, match leftPad
-    as a1 {
-    ""`tick`"" :
-    string_ // c
-,
-// c
-// c
-10
-:
-    string_, 4294967296// a // b
-: Foo
-, } , }")).
-Eval vm_compute in ("<<<M650>>>" ++ check (runes_of_ascii "// `tick` ""quote"" 'q'
-packet
-Logon { @lengthOf( //
-Logon)	repeat f64// " ++ [27880; 37322]%N ++ runes_of_ascii "
-MetaDataX ,
-char[ 0
-]
+Header, [""it's"" , 1,""1"" ] :
+msg_type , } , @leftPad ( )
+f32 Foo
     // `tick` ""quote"" 'q'
-    options1
+    ``	, charz {
+repeat int8
+options1  ,repeat  char[]
+T
 ,
-    // " ++ [27880; 37322]%N ++ runes_of_ascii "
-    repeat Foo
-    `a\`  , // `tick` ""quote"" 'q'
-@lengthOf( Header) u16 u128//x
-@calculatedFrom( // `tick` ""quote"" 'q'
-""\" ++ [233]%N ++ runes_of_ascii """
-) //	t
-,
-    @lengthOf(	len )Header // trailing space 
-{MetaDataX @calculatedFrom( ""a\""b""),
-i32 rootA @calculatedFrom(
-""a\""b"" //
-)	`" ++ [28040; 24687; 31867; 22411]%N ++ runes_of_ascii "`	,
-match A as
-packetx { [0123456789]	: rootA
-    , } ,
-    }
-    ,  }
-    options{
-Foo
-    =// c
-""CRC32""/// triple
-;} MetaData MetaDataX
-    { }packet lengthOf {// packet A { u8 x, }
-repeat char[  3
-] Pad,@calculatedFrom(  """ ++ [28040; 24687]%N ++ runes_of_ascii """ ) int16 roots
-@lengthOf(
-Logon )
-, MetaDataX
-{ //x
-char[]
-asx@lengthOf( calculatedFrom//x
-) // " ++ [128512]%N ++ runes_of_ascii " emoji
-, string
-    //
-    A@lengthOf( /// triple
-Logon ) ,
-char[]pack,}
-    /// triple
-    ,
-    repeat options1 u ,@tag( 1 )
-    repeat // c
-pack	trueish ,repeat string repeatCount
-, @calculatedFrom( """ ++ [28040; 24687]%N ++ runes_of_ascii """)  f32 float
-    @calculatedFrom(""{,}"" )  , }")).
-Eval vm_compute in ("<<<M1090>>>" ++ check (runes_of_ascii "
-options{ body = ""it's""
-; //
-Z9_ = string ;
-}
+repeat string
+crc // c
+`doc`
     //x
-    packet
-x
-{repeat u128 { char[]u `a\`, } , @leftPad
-(  ' ' ) @tag(
-    00 ) @rightPad (
-    '0' )  tag ,repeat f64
-    // a // b
-    float, repeat string o ,repeat int16  float
-    ,
-@calculatedFrom( ""it's"" ) @rightPad ( '\x00')@lengthOf(
-lengthOf // " ++ [128512]%N ++ runes_of_ascii " emoji
-) f32
-    i8i8 ,
-    repeat f32 tag `// not a comment` ,
-@tag(
-// trailing space 
-/// triple
-42// trailing space 
-)x `" ++ [233]%N ++ runes_of_ascii "`
-    ,
-@lengthOf(
-Pad )
-    char[4294967296] repeatCount
-`` // c
-,
-@lengthOf( pack
-) @tag(
-    007  )	uint32 leftPad
-,
-    } // trailing space 
-root	packet int
-    { @tag( 10 ) Packet // `tick` ""quote"" 'q'
-@lengthOf(	MetaDataX ) , @rightPad
-( '0' ) char[] MetaDataX @calculatedFrom( ""{,}""
-)  `it's` , @tag(
-0) // `tick` ""quote"" 'q'
-@lengthOf(i64_
-)
-BodyLength,
-@tag(
-4294967296 ) repeat string Logon
-    `" ++ [233]%N ++ runes_of_ascii "`/// triple
-, @lengthOf( chars	)
-    @tag(
-10 ) @calculatedFrom( ""\" ++ [233]%N ++ runes_of_ascii """)char[] A @lengthOf( _x
-    ),
-    }
-")).
-Eval vm_compute in ("<<<M3760>>>" ++ check (runes_of_ascii "options {
-    LittleEndian = true;
-    StringPrefixLenType = u32;
-    FixedStringPadChar = '0';
-}
-
-packet Logout {
-    repeat InMsgkind49 {
-        u8 pad0,
-    },
-    repeat char[5] seqNo,
-    repeat u8 price,
-}
-
-packet Party {
-    zchar[7] Qty,
-}
-
-packet Logon {
-    repeat InRef10 {
-        string price,
-        char[] sym,
-        repeat Logout,
-    },
-    repeat char[3] count,
-    repeat Party,
-    char[] tag7,
-    @rightPad('0')
-    char[2] clOrdID,
-}
-
-packet Order {
-    InTail13 {
-        Party,
-    },
-    repeat char[4] count,
-}
-
-root packet Cancel {
-    Logout,
-    @leftPad('0')
-    char[9] msgKind,
-    string lastPx,
-    string tag7,
-    zchar[1] OrderId,
-    repeat Party,
-    u16 sym,
-    u16 Acct @lengthOf(Body),
-    match sym as Body {
-        [24, 44] : Logout,
-        160 : Order,
-        91 : Logon,
-        43 : Party,
-    },
-    u16 Tail @calculatedFrom(""CR\
-    C32""),
-}")).
-Eval vm_compute in ("<<<M3835>>>" ++ check (runes_of_ascii "
-// `tick` ""quote"" 'q'
-root 
-packet// " ++ [27880; 37322]%N ++ runes_of_ascii "
-    MetaDataX {
-
-    zchar[10  ]len `// not a comment` ,  // " ++ [128512]%N ++ runes_of_ascii " emoji
-  repeat matchKey 
-
-    // " ++ [128512]%N ++ runes_of_ascii " emoji
-{
-u  // a // b
-    falsey
-`tab	here`
-
-,
-	},
-
-@tag(
-    0123456789
-
-) 
-string u8x 
-,
-
-    zchar[
-    3
-	]msg_type	@lengthOf( As 
-)
-    ,@rightPad  // `tick` ""quote"" 'q'
-
-  ()  char
-Packet 
-,
-
-    @rightPad 
-(
-	)
-f64
-
-u
-    // `tick` ""quote"" 'q'
-    ,@lengthOf(
-
-uint8x
-    )
-	@lengthOf(
-	x_y_z
-) @lengthOf( float
-)Logon @lengthOf( pack ) `a\`
-
-,@lengthOf(
-	Logon	)
-	char[]
-
+    , uint8x`a\`
+    ,} ,} packet
+    Logon{ A, u8
+metadata , @lengthOf( trueish )
 // a // b
-
-  rootA  @calculatedFrom(  // " ++ [128512]%N ++ runes_of_ascii " emoji
-    ""1"" )
-
-    ,int64
-
-    stringy@lengthOf(  zchar
-
-    )	`{ , }` , match
+// packet A { u8 x, }
+@lengthOf(u8x) @lengthOf( A)
+    // " ++ [27880; 37322]%N ++ runes_of_ascii "
+    repeat string
+trueish
+    // " ++ [128512]%N ++ runes_of_ascii " emoji
+    , @tag( 3) match
+    rootA as
+    Pad // @lengthOf(
+{42 :msg_type,[ 0
     // a // b
-
-// " ++ [27880; 37322]%N ++ runes_of_ascii "
-    	string_ 
-as
-
-    As { 7
-	:
-    metadata""x y""  // " ++ [128512]%N ++ runes_of_ascii " emoji
-  : 
-packetx
-, """ ++ [233]%N ++ runes_of_ascii "t" ++ [233]%N ++ runes_of_ascii """
-
-    :
-	repeatCount
-	,}	, 
+    ,
+// trailing space 
+// `tick` ""quote"" 'q'
+""" ++ [128512]%N ++ runes_of_ascii """ ,00
+] : asx
+, [ """ ++ [233]%N ++ runes_of_ascii "t" ++ [233]%N ++ runes_of_ascii """ ,""{,}""
+,""" ++ [233]%N ++ runes_of_ascii "t" ++ [233]%N ++ runes_of_ascii """ , 255 ] //	t
+:T ""x y"" : calculatedFrom
+[
+""a	b""	,0123456789	,
+    ""{,}"" ,
+    3 , 3
+, 7 ,
+    4294967296 ,  4294967296 ]: Header , [0,4294967296,
+    10
+    // packet A { u8 x, }
+    ,
+007 , 007 ,1 , ""1"",	""`tick`""
+    //	t
+    ] : Packet }/// triple
+,
+    zchar[
+0
+    ] asx @lengthOf( x_y_z
+    )
+`{ , }`
+,
+repeat char[
+    7 ] leftPad, stringy`` , falsey //
+repeatCount
+`{ , }` ,}packet
+    MetaDataX // packet A { u8 x, }
+{
+options1,	}
+    // " ++ [27880; 37322]%N ++ runes_of_ascii "
+    packet
+    zchar { // " ++ [27880; 37322]%N ++ runes_of_ascii "
+uint16 falsey ,  match string_ as BodyLength {
+[
+    4294967296 , 42 ,255 , ""1""
+, """ ++ [28040; 24687]%N ++ runes_of_ascii """ ,""packet"" ,""`tick`"" ]
+: Logon ,
+7 : packetx , } , @leftPad  (
+) @calculatedFrom(
+    /// triple
+    ""\n"" )
+    @leftPad  () match T as
+packetx {""1"" :options1, } //
+,uint8 MetaDataX@lengthOf(	roots  ), @tag( 0123456789 //	t
+) body// packet A { u8 x, }
+@calculatedFrom( ""packet"" // @lengthOf(
+)
+// c
+// trailing space 
+`{ , }` ,@lengthOf(	roots )
+zchar[ 0123456789 ]
+repeatCount
+    , repeat int32 matchKey `a\` , @lengthOf(
+    options1 )u8 pack , @rightPad( ' ' ) float32 f32a
+    , @rightPad (
+    /// triple
+    '\x00' )
+    @rightPad(	) @calculatedFrom(// trailing space 
+""CRC32"" )repeat
+pack { // @lengthOf(
+zchar[00 ] falsey ``
+    , match calculatedFrom	as // c
+leftPad { 65535 // trailing space 
+: // packet A { u8 x, }
+Z9_
+    , 007//x
+:
+charz,} , repeat zchar[7] Pad ,} , }
+//x
+")).
+Eval vm_compute in ("<<<M1153>>>" ++ check (runes_of_ascii "
+root packet
+a1 { repeat zchar int ,
+string u ,
+string u8x @lengthOf( msg_type ) , rootA `it's`
+, @tag(
+    255 ) //x
+uint16 packetx
+    @lengthOf( Z9_ ) `it's` ,
+@leftPad( '\x00')  uint8
+zchar , @tag( 007 ) @tag(// trailing space 
+4294967296 )
+trueish	@lengthOf( i64_ )
+,  uint8 repeatCount`crlf
+line` , string
+metadata ,
+    match  len as
+    metadata {0	: Packet,
+    } , } packet As { repeat i8
+T ,
+    pack , @lengthOf( stringy
+) char[0	]
+Pad , repeat char[ 0 ]
+tag ,
+    @lengthOf(roots)uint16
+    // a // b
+    string_// " ++ [128512]%N ++ runes_of_ascii " emoji
+@lengthOf(
+    // a // b
+    zchar ) `{ , }` ,
+@lengthOf(a1 // " ++ [128512]%N ++ runes_of_ascii " emoji
+) repeat x_y_z
+    { int8
+f32a, packetx{match Header	as Packet
+{  [
 // @lengthOf(
-} root
-	packet matchKey{  }  packet
-
-charz{ 
-} ")).
-Eval vm_compute in ("<<<M4223>>>" ++ check (runes_of_ascii "
-
-  root
-	packet
+// trailing space 
+""it's""] :
 uint8x
-
-{	} 
-options
-{o=
-	    //x
-    	//
-	' ';
-x_y_z	=
-	0123456789
-
-    stringy =
-
-""packet""  }
-	packet	A	{
+    1 : u128
+    ,
+""\" ++ [233]%N ++ runes_of_ascii """
+:MetaDataX
+, [""a\\"" ,	1, ""x y""] : f32a ,
+    65535 : BodyLength
+, }
+    ,
+msg_type @calculatedFrom( ""abc""
+    )
+    //
+    `// not a comment` , match chars as
+Header {
+7:x_y_z, 10
+    : matchKey /// triple
+,
+""x y""
+: // " ++ [128512]%N ++ runes_of_ascii " emoji
+x_y_z ,007	: float , }
+, // a // b
+uint8x u , },	repeat Foo { //	t
+repeat float64 chars , //x
 match
-falsey
-as string_
-{ """ ++ [28040; 24687]%N ++ runes_of_ascii """  :
-packetx ,
+    len
+//
+//x
+as Pad { [ ""\" ++ [233]%N ++ runes_of_ascii """ , 1 ] :
+    u8x  ,
+10:i64_	[  ""CRC32""  ] : Logon
+    ,[""CRC32"" ,  255
+    ]  :
+u8x , }
+,
+} ,
+    } ,
+@lengthOf( Packet ) @leftPad (	'0'
+) @rightPad
+    // c
+    (
+) zchar[3
+]uint8x//
+,	match int as pack {
+    // " ++ [128512]%N ++ runes_of_ascii " emoji
+    [ 3 ] :
+string_  ""a\""b"" : repeatCount ,
+    007 :	zchar} ,repeat uint8 lengthOf`// not a comment` , } options { Logon = ""packet""
+// @lengthOf(
+// `tick` ""quote"" 'q'
+rootA=//	t
+true
+    packetx = false f32a =  ""a\\"" }
+    root packet
+u {  repeat char[] body , //
+@calculatedFrom( ""a\""b"" )
+    @lengthOf( Foo ) A
+@calculatedFrom( ""{,}"" ) , } options
+{ trueish = 0 charz= ""abc"" }")).
+Eval vm_compute in ("<<<M1322>>>" ++ check (runes_of_ascii "options { rootA = """" BodyLength = 0123456789 ; roots =
+    string options1=
+' ' } root packet
+int {repeat zchar[ 00	]
+Logon, repeat	uint16
+    //	t
+    body `// not a comment` , @calculatedFrom(	""a\""b"")repeat
+    string MetaDataX
+    `a\` , string lengthOf `" ++ [28040; 24687; 31867; 22411]%N ++ runes_of_ascii "` ,
+    @tag( 3 ) trueish calculatedFrom , //
+} root
+packet i64_ {
+zchar[ 007
+] //x
+rootA
+    `" ++ [28040; 24687; 31867; 22411]%N ++ runes_of_ascii "` , @leftPad ( ' ')
+@calculatedFrom(""a\\""	) @calculatedFrom(
+    // @lengthOf(
+    ""a\""b"")
+repeat	f64 trueish	`" ++ [233]%N ++ runes_of_ascii "`, repeat int { match msg_type as asx
+    {"""" : u128 , [ //
+""1"" ,
+//	t
+// trailing space 
+""\" ++ [233]%N ++ runes_of_ascii """ ]
+: options1 ,  ""x y""	: u8x,
+""// no comment"" : BodyLength  , [
+    7	,  ""a\""b""	, 4294967296 ]
+: asx ,
+} , crc @calculatedFrom(  """" )  ,
+    // `tick` ""quote"" 'q'
+    match metadata as lengthOf
+{
+[4294967296
+, ""a	b"",""packet"", ""// no comment"" ]
+    // a // b
+    : repeatCount
+    // c
+    , }
+    // @lengthOf(
+    , u128
+    { crc ,repeat options1  , uint64 BodyLength ,matchKey
+    `
+` ,
+} ,}
+    , @lengthOf(zchar ) int8 lengthOf `say ""hi""`  , }	root packet pack  {	@calculatedFrom( ""a	b"" )
+    // " ++ [27880; 37322]%N ++ runes_of_ascii "
+    Pad, @calculatedFrom( ""packet"" ) match u as leftPad
+    { [ ""{,}""]
+:// `tick` ""quote"" 'q'
+A""{,}"" : u128 [  ""1""
+    ,007 ]
+:  a1
+    ,
+[ ""1"" ] :
+Packet
+4294967296:
+    i8i8 , 00 :
+// " ++ [128512]%N ++ runes_of_ascii " emoji
+// @lengthOf(
+roots
+,
+//
+// packet A { u8 x, }
+}	,//
+char[0123456789  ] calculatedFrom`say ""hi""`
+,	uint8 int @calculatedFrom(
+    ""a\\""
+),Packet pack,// c
+}
+")).
+Eval vm_compute in ("<<<M1049>>>" ++ check (runes_of_ascii "
+packet
+charz {  match Packet as x_y_z {
+    """" :f32a
+    , [255 // " ++ [27880; 37322]%N ++ runes_of_ascii "
+,
+4294967296 ,0 ,
+    4294967296 ,
+10 , 00
+]
+:
+crc""{,}"" :Foo , 65535	:
+    // a // b
+    Pad 10 :Logon,
+}
+    ,	repeat  Foo {
+match  tag
+as matchKey {[ 65535, 3 ]  :
+    //
+    body  , 10: A , 42 :
+    body
+    , 007 : As ,  [
+    // trailing space 
+    ""a\\""
+// " ++ [128512]%N ++ runes_of_ascii " emoji
+//x
+] : msg_type ,
+[
+0123456789, 255 ] : msg_type
+    /// triple
+    ,	} , u16// " ++ [128512]%N ++ runes_of_ascii " emoji
+MetaDataX
+, o { match
+    T as string_ { 0	:
+// packet A { u8 x, }
+/// triple
+trueish,
+    3 : MetaDataX ,
+    //x
+    ""packet"" :
+rootA ,
+    7 : o[
+""a\\""
+    // trailing space 
+    , 42 ,//
+0123456789 , ""a	b"",
+    // " ++ [27880; 37322]%N ++ runes_of_ascii "
+    ""packet"" ] /// triple
+: f32a , [ ""a	b""
+    , 4294967296 ,""packet""	, 65535 ] :
+    falsey,
+} ,}
+, },packetx u ``// c
+,@tag(	42
+    // a // b
+    )u32
+    f32a  ``
+,msg_type@lengthOf( matchKey )	`{ , }` ,  @leftPad ( ' ' )
+char[] asx @calculatedFrom( """ ++ [28040; 24687]%N ++ runes_of_ascii """
+    )
+    ,
+/// triple
+// " ++ [128512]%N ++ runes_of_ascii " emoji
+zchar[ 3 ]rootA ,	uint16 // a // b
+u8x `two words`
+, @rightPad
+('0' ) match zchar/// triple
+as
+repeatCount {
+    ""a\\"" : T , ""a\\"" : As,[ 255, ""// no comment"" , 4294967296 , ""x y""
+//	t
+//x
+, ""{,}""
+,	00 , 7 ,""it's"" ] :
+leftPad ,007//
+: zchar
+, ""a	b""
+    :
+    // packet A { u8 x, }
+    falsey,
+}
+, }options {
+lengthOf
+    = '0'// a // b
+}
+")).
+Eval vm_compute in ("<<<M1126>>>" ++ check (runes_of_ascii "packet // `tick` ""quote"" 'q'
+BodyLength {char[ 3//
+]i64_ @calculatedFrom( ""`tick`"" )  `line1
+line2`
+    // trailing space 
+    ,@leftPad// " ++ [128512]%N ++ runes_of_ascii " emoji
+(
+) x `two words` // trailing space 
+,zchar[ 0123456789 ]
+pack
+// a // b
+//	t
+@calculatedFrom(""a\""b""//
+) `crlf
+line`	,	calculatedFrom{ char[
+    255 ] MetaDataX @calculatedFrom( ""packet"" ) `doc` , zchar[
+    //x
+    007
+]leftPad `crlf
+line`,
+uint8x
+    @calculatedFrom(
+""a\""b"") ,
+//
+//
+MetaDataX  _x , },@calculatedFrom( // " ++ [27880; 37322]%N ++ runes_of_ascii "
+""packet"" )
+zchar[  7] repeatCount
+    `" ++ [28040; 24687; 31867; 22411]%N ++ runes_of_ascii "`
+, @lengthOf(Foo ) // " ++ [128512]%N ++ runes_of_ascii " emoji
+int64  A @lengthOf(	charz	)``
+    , @tag(	7
+    ) packetx
+@calculatedFrom( """")`a\`,  } root
+packet u128 { } packet
+Logon {
+    T {
+T
+    @lengthOf(
+// a // b
+//	t
+u8x ) `tab	here` // packet A { u8 x, }
+,
+As `u8 x,`,
+}  , int64
+    T
+, i64 tag // `tick` ""quote"" 'q'
+@lengthOf( i64_ )
+    , @lengthOf( metadata
+) repeat i8
+rootA , int64 Foo // trailing space 
+@lengthOf( a1	) , chars
+    {  string// @lengthOf(
+packetx // a // b
+@lengthOf(chars
+) `" ++ [233]%N ++ runes_of_ascii "` , a1 @calculatedFrom(""a\""b"" ), char[] crc // packet A { u8 x, }
+@lengthOf(i8i8 // " ++ [128512]%N ++ runes_of_ascii " emoji
+)
+    , } , }options{ matchKey  =	' '
+    asx = true ; MetaDataX=	""it's""; }
 
-    0 :BodyLength	,
-    } 	 // @lengthOf(
+")).
+Eval vm_compute in ("<<<M207>>>" ++ check (runes_of_ascii "
+root packet	msg_type {u128//
+, @calculatedFrom(
+""" ++ [233]%N ++ runes_of_ascii "t" ++ [233]%N ++ runes_of_ascii """ ) repeat char[
+    //
+    3]
+    metadata`crlf
+line`,
+char[255 ]	Pad
+,  asx @calculatedFrom(""packet"" )
+    , repeat stringy `tab	here`
+    ,
+//x
+//	t
+repeat //x
+As `two words`, @leftPad ( '\x00'
+    ) repeat matchKey`a\`	, @rightPad (' ' ) repeat/// triple
+Pad
+{ repeat
+    u
+,
+// trailing space 
+// packet A { u8 x, }
+repeat char[] uint8x , }
+    ,
+u128	{ repeat
+As `u8 x,` ,
+pack msg_type,	uint32 lengthOf @calculatedFrom( ""1""	), match roots as
+    // " ++ [128512]%N ++ runes_of_ascii " emoji
+    x{ ""{,}"" :
+    // " ++ [27880; 37322]%N ++ runes_of_ascii "
+    Pad
+    }
+    ,  } ,}
+root packet tag
+{string pack , } root
+packet u8x
+    {
+string
+    pack `doc` , @lengthOf( options1
+    )f32	matchKey @calculatedFrom( ""`tick`"" )
+`two words` , @leftPad (  '\x00' )@lengthOf( Packet) @tag( 007//x
+)
+int32
+    Pad	@calculatedFrom(""a\\""
+)
+, @calculatedFrom( """" ) string a1 @lengthOf( metadata ) ,match u128 as Foo {
+    [ ""`tick`"" ]
+: msg_type
+    ,
+    10 // a // b
+:
+msg_type, 00
+:  len, ""`tick`"" : _x ,1 : repeatCount
+    , [ 1 , //	t
+1 ] :
+    // packet A { u8 x, }
+    pack ,} , @leftPad ( )
+float64 pack
+    `
+` ,
+    }")).
+Eval vm_compute in ("<<<M1316>>>" ++ check (runes_of_ascii "packet
+calculatedFrom { Pad { match
+    tag as metadata {
+    ""x y"":tag 10 :Packet,[ 007
+, ""it's"" ,
+    0
+, 3
+,
+4294967296
+    // c
+    ,""" ++ [28040; 24687]%N ++ runes_of_ascii """ , ""\n"" ,""a	b"" ] : Logon , 3 : A ,
+    [
+0123456789 ] : leftPad, } , } ,//	t
+@lengthOf( int
+) repeat char[ 255 ] msg_type `" ++ [28040; 24687; 31867; 22411]%N ++ runes_of_ascii "` , Pad @calculatedFrom(""" ++ [233]%N ++ runes_of_ascii "t" ++ [233]%N ++ runes_of_ascii """ ) , @tag(65535)  f32 u128 `// not a comment` ,zchar[ //x
+3 ]
+    leftPad
+// trailing space 
+// " ++ [27880; 37322]%N ++ runes_of_ascii "
+`" ++ [28040; 24687; 31867; 22411]%N ++ runes_of_ascii "`,@rightPad( ' ' ) @lengthOf( roots ) /// triple
+repeat char[
+    10]
+leftPad,Logon charz
+    // @lengthOf(
+    `line1
+line2` , } MetaData _x
+{ string Z9_
+`tab	here`
+,u _x ``
+    , zchar[
+    10]
+asx
+`line1
+line2`, u128 Logon , char[
+    7
+] u128 , options1	repeatCount , }options {} packet
+    /// triple
+    body
+    {// `tick` ""quote"" 'q'
+@calculatedFrom( ""a	b""
+)  char[] len
+,	@lengthOf( Packet )
+    match
+//	t
+/// triple
+zchar as i64_{ [ ""x y"",""" ++ [28040; 24687]%N ++ runes_of_ascii """ ,	3, 65535
+    ,""`tick`"" , ""{,}"" , ""\" ++ [233]%N ++ runes_of_ascii """ , 42 ] : i64_ ,} ,
+matchKey
+chars , @lengthOf( x_y_z
+// packet A { u8 x, }
+//
+) @tag( 00 )a1 @lengthOf(repeatCount ) // trailing space 
+,}
+
+")).
+Eval vm_compute in ("<<<M4438>>>" ++ check (runes_of_ascii "root packet chars {
+    @tag(1)
+    zchar[0123456789] MetaDataX,
+    f32 Packet,
+    @rightPad(' ')
+    repeat chars {
+        o stringy `crlf
+                line`,
+        matchKey int,
+    },
+}
+
+packet uint8x {
+    match stringy as len {
+        ""CRC32"" : trueish,
+        [3, 42] : x_y_z,
+        ""CRC32"" : leftPad,
+        // " ++ [128512]%N ++ runes_of_ascii " emoji
+        [
+            3, 42, ""a\\"", ""1"", ""it's"",
+            255, ""CRC32"", 0123456789
+        ] : uint8x,
+        //	t
+        [
+            42, ""a	b"", 7, 65535, 42,
+            """", """"
+        ] : x_y_z,
+    },
+    repeat trueish {
+        repeat As `u8 x,`,
+    },
+    repeat chars `two words`,
+    @rightPad('\x00')
+    repeat f64 _x `" ++ [233]%N ++ runes_of_ascii "`,
+    repeat i16 u `say ""hi""`,// c
+    @lengthOf(x)
+    i8i8 {
+        match options1 as a1 {
+            1 : u128,
+        },
+    },
+    string chars,
+    repeat char[] Logon `it's`,
+    u8 float @lengthOf(o) `{ , }`,
+    @lengthOf(int)
+    @tag(1)
+    asx @calculatedFrom(""\" ++ [233]%N ++ runes_of_ascii """),// `tick` ""quote"" 'q'
+}")).
+Eval vm_compute in ("<<<M4501>>>" ++ check (runes_of_ascii "options
+{ StringPrefixLenType
+
+=
+
+    u32;
+    ArrayPrefixLenType
+    =u8 
+;	FixedStringPadFromLeft
+= false	;
+    }
+
+    packet	Logon { i8
+venue	, int16
+	f1
+    ,	zchar[8 
+]
+    Acct 
+, repeat InNote16 
+{ InQty73 {
+
+float32 tag7
+
+,  }
+
+, 
+f32 
+Acct
+
+    , zchar[ 5
+	]
+sym	,
+}
+	, uint16
+Side2
+	,	i32
+	lastPx  , }
+    packet
+Fill
+{ repeat
+
+InOrderid15
+{ zchar[
+	8 ]
+	sym  , repeat
+	char[2
+] OrderId
+
+    ,
+
+    repeat Logon, InQty82
+
+    {
+	char[]  Tail,
+repeat Logon , float64  price
 	,
 
-float32  // " ++ [27880; 37322]%N ++ runes_of_ascii "
-	string_
-@lengthOf(
+    f64  Side2
 
-    a1	),
+,	}
 
-    trueish @calculatedFrom(""abc""
-),
-@leftPad  //	t
-    (
-	'0')  string
+    ,
 
-    matchKey @lengthOf(
-    x_y_z )`` ,	leftPad
-{
-trueish 
-@calculatedFrom(
-""a\""b"" 
-)// c
-  ,
+char[  12
+	]
+venue
+    ,char[ 4 ]
+Px
+    , 
+} ,  @rightPad	( '0'
+	)
+char[
+2 
+]venue,
+	InPrice99 {
+	InAcct72{u8
+    pad0
 
-}, // `tick` ""quote"" 'q'
-@tag( 1
-    // trailing space 
-		)
-repeat
-
-float64
-calculatedFrom	`{ , }`
+,}	,
+    u32	OrderId ,Logon
 
 ,
-@leftPad 
-    // @lengthOf(
-  (
-    '\x00'
-)
 
-    match Z9_	//	t
-	  as crc
-	{ [  0
-]
+    }
+    ,  }  root
+
+    packet
+	Reject
+
+{ zchar[
+	9]
+	msgKind,u32
+venue  ,
+u16
+
+    seqNo
+    @lengthOf(Body
+
+) 
+,
+    match venue as Body 
+{  57
+:
+
+    Fill,  8
 
     :
+    Logon
 
-a1
-
-    , 	 //
-
-	}
-	,_x 
-@lengthOf( T
-    )// trailing space 
     ,
-    x_y_z `" ++ [28040; 24687; 31867; 22411]%N ++ runes_of_ascii "` 
-        // c
-	// `tick` ""quote"" 'q'
-		,  repeat
-char[]Z9_
-    ,
-} 
-// " ++ [27880; 37322]%N ++ runes_of_ascii "
-")).
-Eval vm_compute in ("<<<M3794>>>" ++ check (runes_of_ascii "packet a1 {
-    @lengthOf(packetx)
-    A @lengthOf(T) `tab	here`,
-    zchar[42] Header,// " ++ [128512]%N ++ runes_of_ascii " emoji
-    @leftPad('0')
-    match o as int {
-        1 : Logon,
-    },
-    repeat packetx `line1
-    line2`,
-    string x @calculatedFrom(""CRC32""),
-    i8 repeatCount `// not a comment`,
-    match i64_ as x_y_z {
-        3 : len,
-        4294967296 : u8x,
-        00 : crc,
-        [
-            10, 007, 3, 00, 0123456789,
-            0123456789, """ ++ [128512]%N ++ runes_of_ascii """
-        ] : tag,
-        42 : repeatCount,
-    },
-    @lengthOf(f32a)
-    @lengthOf(stringy)
-    @calculatedFrom(""\" ++ [233]%N ++ runes_of_ascii """)
-    repeat i64 As,
-    @rightPad()
-    repeat leftPad {
-        uint32 crc @calculatedFrom(""" ++ [233]%N ++ runes_of_ascii "t" ++ [233]%N ++ runes_of_ascii """),
-    },
+
 }
 
-MetaData Pad {
-    As pack,
-}
-
-root packet len {
-    @calculatedFrom(""\" ++ [233]%N ++ runes_of_ascii """)
-    int64 a1 @calculatedFrom(""CRC32""),
-}")).
-Eval vm_compute in ("<<<M3208>>>" ++ check (runes_of_ascii "// top
-root // c0
-packet // c1
-msg_type // c2
-{ // c3
-i64 // c4
-options1 // c5
-, // c6
-@lengthOf( // c7
-f32a // c8
-) // c9
-repeat // c10
-uint16 // c11
-Foo // c12
-, // c13
-@calculatedFrom( // c14
-""x y"" // c15
-) // c16
-repeat // c17
-int64 // c18
-pack // c19
-, // c20
-@leftPad // c21
-( // c22
-' ' // c23
-) // c24
-uint8 // c25
-Foo // c26
-, // c27
-} // c28
-packet // c29
-rootA // c30
-{ // c31
-f32a // c32
-x // c33
-`two words` // c34
-, // c35
-char // c36
-asx // c37
-@lengthOf( // c38
-falsey // c39
-) // c40
-`u8 x,` // c41
-, // c42
-@lengthOf( // c43
-i64_ // c44
-) // c45
-uint16 // c46
-chars // c47
-, // c48
-@tag( // c49
-0 // c50
-) // c51
-string // c52
-_x // c53
-@calculatedFrom( // c54
-""abc"" // c55
-) // c56
-`// not a comment` // c57
-, // c58
-} // c59
-")).
-Eval vm_compute in ("<<<M1086>>>" ++ check (runes_of_ascii "// " ++ [128512]%N ++ runes_of_ascii " emoji
-packet u128{ repeat
-MetaDataX
-    ,
-int64
-leftPad
-, //	t
-@lengthOf(
-    matchKey ) //
-@calculatedFrom( """ ++ [28040; 24687]%N ++ runes_of_ascii """ )match T as Header{255 :repeatCount, ""it's""
-    : roots
-, },
-}
-//
-//	t
-packet MetaDataX{ repeat
-// a // b
-// packet A { u8 x, }
-chars
-asx  `tab	here`
-    , repeat o
-// c
-// trailing space 
-{ repeat _x { repeat uint32 charz`u8 x,` ,
-zchar[42  ] leftPad @calculatedFrom( """ ++ [28040; 24687]%N ++ runes_of_ascii """ ) `doc` , /// triple
-} ,  },  int16 u@lengthOf( f32a//	t
-) `tab	here` ,match f32a
-as i64_
-    { 00 :
-    len
-    // `tick` ""quote"" 'q'
-    , } ,
-    } MetaData
-    //x
-    pack { f32a
-packetx ,zchar[ 10 ] Header
-    `tab	here` , zchar[
-007
-    ]
-    string_ `crlf
-line`
-, char[]
-    matchKey , float64 float,}
-")).
-Eval vm_compute in ("<<<M193>>>" ++ check (runes_of_ascii "options {
-// c
-//x
-u128 = true ; Header // trailing space 
-= ""packet""
-    stringy =""CRC32"" A =
-    '0' ;} packet calculatedFrom  { repeat
-u128
-    Logon ,
-// packet A { u8 x, }
-// " ++ [128512]%N ++ runes_of_ascii " emoji
-}
-packet body { @calculatedFrom( ""\" ++ [233]%N ++ runes_of_ascii """
-)
-    metadata
-`a\`  ,
-// c
-// c
-stringy{
-    //	t
-    uint8 A `tab	here` , repeat
-    u
-    // `tick` ""quote"" 'q'
-    As
-, /// triple
-zchar[
-65535]x_y_z@lengthOf(
-crc ) //
-, }  , @calculatedFrom(
-    ""{,}"" )len /// triple
-@lengthOf(	roots ) ,char[  7 ]BodyLength`{ , }` ,
-    // c
-    int64
-    _x , @calculatedFrom(""it's""// " ++ [27880; 37322]%N ++ runes_of_ascii "
-) match
-pack as As { ""CRC32"": o
-    ,
-    } , zchar[ 4294967296]i64_@calculatedFrom( ""// no comment"" ) ,
-}
-")).
-Eval vm_compute in ("<<<M998>>>" ++ check (runes_of_ascii "  root packet Packet {
-u128
-    `{ , }`
-, // @lengthOf(
-@calculatedFrom(""\n"")char[
-65535	] float@calculatedFrom(
-    /// triple
-    ""abc"" ) , f32a
-, f32 i64_, @leftPad( ' '
-)
-    @lengthOf( body ) @leftPad ( ' '
-) u64 x `doc`,char[ 00]
-int@lengthOf(roots
-)`tab	here` , float64 msg_type,
-    @calculatedFrom(
-""a\\""
-) @leftPad (
-// a // b
-// packet A { u8 x, }
-) match
-    zchar as
-_x{
-    10:
-asx
-,42
-    //
-    :  A , 00 : options1
-    , [007]
-: chars, 65535
-// @lengthOf(
-//	t
-: _x [ ""a\""b"" ] : pack , } ,@tag( 10 )// " ++ [128512]%N ++ runes_of_ascii " emoji
-match o
-    as  a1	{ 255
-// trailing space 
-// packet A { u8 x, }
-:
-    lengthOf ,10 :
-float, } ,}
-")).
-Eval vm_compute in ("<<<M994>>>" ++ check (runes_of_ascii "packet trueish { i64 T// @lengthOf(
-`it's` ,
-    repeat	_x {
-    char[]
-charz ,
-leftPad
-{ u64 uint8x `` ,
-    // c
-    } ,	} ,string	asx @calculatedFrom( ""1"" )`tab	here` , @lengthOf( T )match A
-as
-msg_type
-{[42
-    , ""// no comment"" ,""x y""	,
-""" ++ [128512]%N ++ runes_of_ascii """ , ""CRC32"" ] :
-Logon
-    ,
-255
-    :matchKey , }, // trailing space 
-uint32 stringy , int64 msg_type @calculatedFrom(""" ++ [233]%N ++ runes_of_ascii "t" ++ [233]%N ++ runes_of_ascii """ ) `tab	here`
-    , repeat Logon {repeat roots Header`` , u16 falsey`a\`
-    ,
-} ,@lengthOf(leftPad )
-    // a // b
-    tag @calculatedFrom( //x
-""CRC32"" ) `" ++ [233]%N ++ runes_of_ascii "` ,// @lengthOf(
-}
-    MetaData Logon {float32
-int,} options {// a // b
-} 	 ")).
-Eval vm_compute in ("<<<M524>>>" ++ check (runes_of_ascii "options {
-tag = ""it's""
-//	t
-// packet A { u8 x, }
-;
-int  = zchar[ 00
-] ; x_y_z =""a	b"" ;  packetx =' '
-    ;}packet
-rootA {  uint8x @calculatedFrom( ""CRC32""
-) ,// " ++ [27880; 37322]%N ++ runes_of_ascii "
-u // `tick` ""quote"" 'q'
-{
-repeat
-string repeatCount
-    `line1
-line2`,
-    repeat Logon{ f32a @lengthOf( roots), Packet {int32
-Z9_ `u8 x,` ,  } , Packet Packet , } , repeat
-// " ++ [128512]%N ++ runes_of_ascii " emoji
-// trailing space 
-repeatCount zchar, } ,
-    a1 @calculatedFrom(""abc""
-) // `tick` ""quote"" 'q'
-,}// `tick` ""quote"" 'q'
-root
-packet crc {
-@tag(00	)
-    char[7
-    // `tick` ""quote"" 'q'
-    ]asx @lengthOf( T ) `` ,
-}
-")).
-Eval vm_compute in ("<<<M539>>>" ++ check (runes_of_ascii "
-root
-packet
-packetx {
-charz `" ++ [233]%N ++ runes_of_ascii "`
-    // " ++ [27880; 37322]%N ++ runes_of_ascii "
-    , float64 x @calculatedFrom( ""// no comment""
-)
-    `{ , }`
-// packet A { u8 x, }
-/// triple
-,
-}
-packet crc{ }packet x {
-@tag(10)@rightPad ('\x00' ) repeat uint32 Z9_
-    `
-`, @lengthOf(
-rootA ) @calculatedFrom(
-    // @lengthOf(
-    ""{,}"" // " ++ [128512]%N ++ runes_of_ascii " emoji
-)
-    stringy // c
-``, @leftPad ( '0'
-    )
-@lengthOf( i64_ ) @lengthOf( zchar	) repeat zchar[0123456789]body,
-//	t
-// @lengthOf(
-@rightPad (	)
-    @lengthOf( leftPad )
-@leftPad (  '\x00' )string
-zchar // @lengthOf(
-@lengthOf( T ) , } //	t")).
-Eval vm_compute in ("<<<M1089>>>" ++ check (runes_of_ascii "options
-{ u128// trailing space 
-=i8  T = float64
-    body =	char[ 0123456789 ] ;i8i8 = uint64	; }
-root packet calculatedFrom{
-    zchar[
-0123456789 ] As  @calculatedFrom(
-""" ++ [28040; 24687]%N ++ runes_of_ascii """ ) , // " ++ [128512]%N ++ runes_of_ascii " emoji
-@calculatedFrom( """ ++ [233]%N ++ runes_of_ascii "t" ++ [233]%N ++ runes_of_ascii """ ) repeat
-    Logon{ string
-    matchKey	@lengthOf( i8i8
-// `tick` ""quote"" 'q'
-// `tick` ""quote"" 'q'
-)
-    ,
-    repeat
-    i64_ ,
-} // a // b
-,repeat
-    uint8 u8x `a\`
-,
-char[ 255] pack
-    ,} MetaData options1 {
-string Pad `{ , }`
-, Header _x , u16 repeatCount// a // b
-`u8 x,`
-, }
-")).
-Eval vm_compute in ("<<<M167>>>" ++ check (runes_of_ascii "root
-packet i64_{
-    packetx
-// " ++ [128512]%N ++ runes_of_ascii " emoji
-// " ++ [27880; 37322]%N ++ runes_of_ascii "
-{	string zchar // c
+, 
+u16
+	Tail
 @calculatedFrom(
-""`tick`""
-    )
-    `
-`
-, zchar[1 ]  metadata	`doc`	, Foo
-    @calculatedFrom(
-""CRC32""
-    )
-    ,}
-    //	t
-    ,char[]roots `crlf
-line`
-//	t
-//x
-, @calculatedFrom(""it's"" )  char
-    rootA
-    ,
-@tag( 7 )
-    charz o //x
-`it's`
-, // a // b
-char[ 007] msg_type@lengthOf(x_y_z )
+
+""CR\
+C32""),}
+")).
+Eval vm_compute in ("<<<M570>>>" ++ check (runes_of_ascii "MetaData charz{ }	packet
+tag // " ++ [27880; 37322]%N ++ runes_of_ascii "
+{
+    @tag( 00) i64 i8i8
+    `// not a comment`  , repeat options1, char[]  float , string a1
 ,
-    repeat //	t
-zchar[ 007 ]repeatCount `say ""hi""` , match i64_ as rootA
-{ [""abc"" ] :T }
-, repeat chars ,  }
-")).
-Eval vm_compute in ("<<<M3765>>>" ++ check (runes_of_ascii "root packet options1 {
-    @lengthOf(msg_type)
-    Logon @lengthOf(packetx) `
-    `,
-    As {
-        repeat T `
-        `,
-        float64 Foo `crlf
-        line`,
-        repeat repeatCount x_y_z `a\`,
-        int8 msg_type,
-    },// `tick` ""quote"" 'q'
-    msg_type @lengthOf(body),
-    u64 rootA @calculatedFrom(""" ++ [128512]%N ++ runes_of_ascii """),
-    @calculatedFrom(""packet"")
-    i32 Header,
-    uint32 BodyLength @lengthOf(trueish),
-    @lengthOf(f32a)
-    f32 Z9_ `{ , }`,
-}// a // b")).
-Eval vm_compute in ("<<<M1339>>>" ++ check (runes_of_ascii "packet trueish { @tag(  007  )len {
-string float ,
-    // packet A { u8 x, }
-    repeat
+i8 asx ,
+// @lengthOf(
 // c
-//	t
-Z9_ `tab	here`
-    , f32
-A @calculatedFrom(
-""CRC32"") ,	} , match
-BodyLength// " ++ [27880; 37322]%N ++ runes_of_ascii "
-as // `tick` ""quote"" 'q'
-int {1 :msg_type  , """ ++ [128512]%N ++ runes_of_ascii """ // @lengthOf(
-:
-falsey
-    // a // b
+match
+u as // " ++ [27880; 37322]%N ++ runes_of_ascii "
+BodyLength
+{ 65535: A ,} , } packet msg_type {@calculatedFrom( """ ++ [28040; 24687]%N ++ runes_of_ascii """ )Foo , @calculatedFrom( ""a\""b"" ) char[ 0123456789]
+    lengthOf	@lengthOf( a1	)	,  repeat stringy Header `
+`  , match	o as float{
+    ""// no comment"" : Pad
+, ""a\\"" :string_ , } , @leftPad
+// @lengthOf(
+//
+( ) match tag as body
+{0 : o,// " ++ [128512]%N ++ runes_of_ascii " emoji
+10 :
+charz ,7
+:u
+,
+    65535 // trailing space 
+:Header
     ,
-// " ++ [128512]%N ++ runes_of_ascii " emoji
-/// triple
-""// no comment""/// triple
-:x_y_z // @lengthOf(
-} , repeat // @lengthOf(
-i32 rootA `doc` ,  }packet asx
-{ }options// `tick` ""quote"" 'q'
-{ T
-=	""a	b"" }
-")).
-Eval vm_compute in ("<<<M4132>>>" ++ check (runes_of_ascii "root packet options1 {
+    255 : body , }, } options //	t
+{ } root packet leftPad {
+@rightPad( ' ' ) i8 zchar ,
+    @calculatedFrom(
+""abc"" )metadata @lengthOf(
+    // c
+    packetx
+    ) , @tag(
+65535 ) string crc  @lengthOf(Z9_ /// triple
+) , @rightPad (' ') uint32 u8x
+// `tick` ""quote"" 'q'
+// c
+`say ""hi""`,@tag( //x
+255)
+    @lengthOf(x_y_z ) As , }")).
+Eval vm_compute in ("<<<M4259>>>" ++ check (runes_of_ascii "packet i8i8 {
+    options1 @calculatedFrom(""packet"") `crlf
+        line`,
     @rightPad(' ')
-    calculatedFrom @calculatedFrom(""x y""),
-    @rightPad()
-    match lengthOf as Logon {
-        ""1"" : Z9_,
-        ""it's"" : metadata,
-    },
-    @lengthOf(o)
-    match options1 as As {
-        255 : u8x,
-        """" : uint8x,
-        [007, 0123456789, ""`tick`""] : T,
-        ""\" ++ [233]%N ++ runes_of_ascii """ : As,
-        7 : Z9_,
-    },
+    string lengthOf `" ++ [233]%N ++ runes_of_ascii "`,
+    u64 string_,
 }
 
-MetaData pack {
-    string As,
-    Header body `two words`,
-    i32 f32a,
-}")).
-Eval vm_compute in ("<<<M3640>>>" ++ check (runes_of_ascii "root packet chars {
-    falsey,
-    uint64 f32a @lengthOf(lengthOf),// c
+options {
+    options1 = false;
 }
 
-MetaData T {
-    char[] As,
+MetaData u {
+    a1 options1,
+    lengthOf x_y_z `line1
+        line2`,// c
+    MetaDataX rootA,
+    zchar[255] len,
+    char[007] int `say ""hi""`,
+    // @lengthOf(
+    //
+    char[4294967296] stringy,//	t
 }
 
-// trailing space 
-packet tag {
-    i64 Foo @lengthOf(a1),
-    @calculatedFrom(""" ++ [128512]%N ++ runes_of_ascii """)
-    @leftPad('\x00')
-    @leftPad('\x00')
-    repeat Foo MetaDataX,
+root packet u8x {
+    Z9_ @lengthOf(Packet),
+    @calculatedFrom(""packet"")
+    // a // b
+    @rightPad('0')
+    @calculatedFrom(""it's"")
+    packetx `" ++ [28040; 24687; 31867; 22411]%N ++ runes_of_ascii "`,
+    float64 Packet @calculatedFrom(""`tick`"") `a\`,
+    @leftPad('0')
+    match len as rootA {
+        // `tick` ""quote"" 'q'
+        ""x y"" : uint8x,
+        ""1"" : asx,
+        ""a\""b"" : u8x,
+    },// " ++ [27880; 37322]%N ++ runes_of_ascii "
+    @lengthOf(tag)
+    trueish As,
+    @lengthOf(falsey)
+    zchar[1] a1,
 }
 
 root packet body {
-    repeat u64 MetaDataX `u8 x,`,
-    @rightPad(' ')
-    charz @lengthOf(matchKey),
-    @calculatedFrom("""")
-    len @lengthOf(tag),
 }")).
-Eval vm_compute in ("<<<M300>>>" ++ check (runes_of_ascii "
-root
-    packet pack
-{
-repeat u8x
-    `a\`
-    , char[ 3 ]MetaDataX `two words` ,
-    @leftPad ( ' '  ) zchar[ 4294967296 ]crc
-@calculatedFrom( """ ++ [128512]%N ++ runes_of_ascii """
-)
-    // c
-    ,  @lengthOf(
-    // " ++ [27880; 37322]%N ++ runes_of_ascii "
-    options1 )
-// " ++ [128512]%N ++ runes_of_ascii " emoji
-// " ++ [27880; 37322]%N ++ runes_of_ascii "
-@calculatedFrom( ""x y"" )repeat u{ repeat	x_y_z options1
-`two words` , zchar[3	]
-charz ,
-    Logon { u8	pack ,
-repeat zchar , i8i8{ repeat
-    u8
-    matchKey , }, } ,
-}, }")).
-Eval vm_compute in ("<<<M1171>>>" ++ check (runes_of_ascii "root packet
-string_ {
-zchar[1
-// a // b
-// `tick` ""quote"" 'q'
-] stringy //	t
-@lengthOf(charz  )
-    `u8 x,` // " ++ [27880; 37322]%N ++ runes_of_ascii "
-,
-repeat falsey {i8 u128
-    @lengthOf(
-    u128
-//	t
-// packet A { u8 x, }
-) `line1
-line2` ,
-    float@calculatedFrom( ""a	b"" )
-// a // b
-//
-,chars
-,
-    char[
-0] Header ,},	i8i8 `// not a comment` , //
-} packet T
-    // a // b
-    { repeat //	t
-lengthOf
-,}
-")).
-Eval vm_compute in ("<<<M3437>>>" ++ check (runes_of_ascii "packet B // c1
-{ // c2
-u8 // c3a
-  // c3b
-a // c4
-,
-    // c5
-} // c6a
-  // c6b
-root
-    // c7
-packet
-    // c8
-P // c9
-{ // c10a
-  // c10b
-u8 // c11
-K // c12a
-  // c12b
-, // c13a
-  // c13b
-u64 // c14
-L @lengthOf( Body // c17a
-  // c17b
-) // c18
-,
-    // c19
-match // c20a
-  // c20b
-K as // c22
-Body // c23
-{
-    // c24
-1 // c25
-: // c26
-B // c27
-, } , } // c31
-")).
-Eval vm_compute in ("<<<M3665>>>" ++ check (runes_of_ascii "options {
-    A = ""it's""
+Eval vm_compute in ("<<<M3529>>>" ++ check (runes_of_ascii "options {
+    LittleEndian = false;
+    StringPrefixLenType = u16;
+    ArrayPrefixLenType = u64;
+    FixedStringPadFromLeft = true;
+    FixedStringPadChar = ' ';
 }
+packet Logon {
+    u16 Tail,
+    repeat string x,
+    i16 count,
+    @leftPad('0') char[3] Note,
+}
+packet Fill {
+}
+packet Heartbeat {
+}
+packet Reject {
+    string msgKind,
+    repeat Logon,
+    InFlags25 {
+        repeat InPrice29 {
+            u8 price,
+            Logon,
+            repeat char[1] Note,
+        },
+        char[] x,
+        Fill,
+    },
+    repeat Heartbeat,
+}
+root packet Order {
+    InNote88 {
+        repeat i32 Acct,
+        repeat i16 clOrdID,
+        repeat Logon,
+    },
+    u16 tag7,
+    match tag7 as Body {
+        [14, 22] : Logon,
+        55 : Heartbeat,
+        93 : Reject,
+        13 : Fill,
+    },
+}
+")).
+Eval vm_compute in ("<<<M4459>>>" ++ check (runes_of_ascii "
+// top
+  packet 
+    // c0
+      Sub	// c1
+	{ 
 
-options {
+    // c2
+    	u8 	 // c3a
+	// c3b
+
+  a 	 // c4
+    ,// c5
+u32
+	SubSum
+@calculatedFrom( 	 // c8a
+    // c8b
+	""CRC16"" 
+	    // c9
+    ) 	 // c10a
+    	// c10b
+  , }	// c12a
+	  // c12b
+    	root  // c13
+	  packet 
+
+    // c14
+	Frame// c15a
+  // c15b
+
+  { 	 // c16a
+
+// c16b
+u16 
+    // c17
+		MsgType // c18a
+      // c18b
+  , 
+	    // c19
+    	u16 	 // c20a
+
+// c20b
+	  BodyLen // c21
+  @lengthOf( 
+
+// c22
+	  Body)
+
+    , Sub// c26a
+	// c26b
+	Body
+
+    // c27
+    ,	// c28
+      string note
+    // c30
+  	,	// c31a
+	// c31b
+      u32  // c32a
+    // c32b
+		Checksum @calculatedFrom(	// c34a
+	  // c34b
+    	""CRC16"" 
+	// c35
+      )// c36
+    , u8  // c38
+tail	// c39
+      , 	 // c40
+  } // c41
+")).
+Eval vm_compute in ("<<<M0>>>" ++ check (runes_of_ascii "packet body{ @tag( 0123456789 )repeatCount { // @lengthOf(
+i32
+roots	@calculatedFrom( ""it's""
+    )
+    // trailing space 
+    ,
+    char[]repeatCount @calculatedFrom(
+""packet"" ) `two words` // " ++ [128512]%N ++ runes_of_ascii " emoji
+,repeat u16 roots , match lengthOf as As //	t
+{ [ ""packet"" ,""" ++ [28040; 24687]%N ++ runes_of_ascii """,	255
+, 42 ,""\" ++ [233]%N ++ runes_of_ascii """ ] : x_y_z ,
+    } , } , trueish ,@tag( 65535 )
+@tag( 255  ) /// triple
+@tag(00) chars @calculatedFrom(""it's"" ) ,	match o as
+    // `tick` ""quote"" 'q'
+    roots {
+// " ++ [27880; 37322]%N ++ runes_of_ascii "
+// c
+""{,}""
+: options1 , """ ++ [28040; 24687]%N ++ runes_of_ascii """
+    :	lengthOf	, 00: pack  ,[ ""a\""b"" ] :
+    msg_type ,1 : i8i8
+, [ 10  , 3 ,"""" ] : falsey ,} , }
+root packet// `tick` ""quote"" 'q'
+Z9_ {repeat char[] // a // b
+Packet	, string chars@calculatedFrom( ""a\""b"" )
+`// not a comment`
+    // " ++ [128512]%N ++ runes_of_ascii " emoji
+    ,	}
+")).
+Eval vm_compute in ("<<<M663>>>" ++ check (runes_of_ascii "packet lengthOf {	@lengthOf( As ) Foo { repeat string
+f32a ,crc
+    @calculatedFrom( ""CRC32"")
+, } ,
+uint8x @calculatedFrom(
+""CRC32""
+) ,string charz	@calculatedFrom(""\" ++ [233]%N ++ runes_of_ascii """ ), @rightPad ( '\x00'
+// trailing space 
+//
+)	u16 int @lengthOf(
+    x )
+, tag string_ // @lengthOf(
+`" ++ [233]%N ++ runes_of_ascii "`  , MetaDataX @calculatedFrom( ""1"")//	t
+, @tag(
+    7  ) @calculatedFrom( """"
+)// " ++ [27880; 37322]%N ++ runes_of_ascii "
+@lengthOf(As)trueish	@lengthOf(// @lengthOf(
+Logon  )
+`two words`  ,}options {
+    Foo /// triple
+= char[
+    // trailing space 
+    10]}packet
+    // @lengthOf(
+    calculatedFrom { match charz as u128{ [
+/// triple
+// packet A { u8 x, }
+0123456789 ,
+""packet"" ,
+    /// triple
+    ""\n""
+    , 00 , 1 ,  ""1""
+,"""" ] :
+    //x
+    Foo} , }")).
+Eval vm_compute in ("<<<M4173>>>" ++ check (runes_of_ascii "
+
+  packet Logon 	 // c1
+    {	// c2
+  string// c3a
+  	// c3b
+
+  user // c4
+
+,// c5a
+
+  // c5b
+    } 
+    // c6
+    root packet Frame // c9a
+// c9b
+      { 
+
+    // c10
+    u8 
+
+// c11
+  K  ,// c13
+  match 
+    // c14
+  K 
+    // c15
+  as
+	    // c16
+
+Body	// c17a
+  // c17b
+
+	{ 1  // c19a
+	  // c19b
+	  :
+Logon // c21
+    ,	// c22a
+
+// c22b
+2:  
+      // c24
+	Logout 
+        // c25
+  , 
+}	,  
+  // c28
+  Tail, 
+}packet// c32
+    Logout 
+    // c33
+	{ 	 // c34
+    	u16// c35a
+// c35b
+reason// c36a
+  // c36b
+
+	,	// c37
+	}  // c38a
+  // c38b
+  packet // c39a
+// c39b
+	  Tail	// c40
+{
+
+u32
+        // c42
+    crc ,// c44a
+  // c44b
+} // c45a
+	// c45b
+ 
+")).
+Eval vm_compute in ("<<<M3776>>>" ++ check (runes_of_ascii "packet rootA {
+}// " ++ [27880; 37322]%N ++ runes_of_ascii "
+
+packet MetaDataX {
+    @leftPad('0')
+    @calculatedFrom(""`tick`"")
+    pack @calculatedFrom(""1""),
+    f32a {
+        a1 {
+            lengthOf {
+                repeat uint8 charz `crlf
+                                line`,
+            },
+            match roots as Packet {
+                7 : Foo,
+                ""\" ++ [233]%N ++ runes_of_ascii """ : metadata,
+                ""a	b"" : trueish,
+                0123456789 : Z9_,
+                [4294967296, ""packet"", """", 3, """ ++ [233]%N ++ runes_of_ascii "t" ++ [233]%N ++ runes_of_ascii """] : pack,
+                10 : a1,
+            },
+            u16 u128 `" ++ [28040; 24687; 31867; 22411]%N ++ runes_of_ascii "`,
+        },
+    },
+    zchar[00] _x @calculatedFrom(""x y"") `doc`,
 }
 
 packet pack {
-    int16 zchar,
-    @tag(007)
-    @lengthOf(Pad)
-    @leftPad(' ')
-    match stringy as body {
-        [
-            255, 42, 1, 00, 10,
-            """", ""{,}""
-        ] : repeatCount,
-        [1] : x_y_z,
-        ""`tick`"" : packetx,
-        7 : u128,
-    },
-    u32 body @lengthOf(stringy),
 }")).
-Eval vm_compute in ("<<<M209>>>" ++ check (runes_of_ascii "
-packet //
-u8x
-    {
-    @lengthOf( Logon )
-    u128 { //x
-Logon@lengthOf( msg_type
-), }
-    ,  repeat
-uint8x
-, // @lengthOf(
-int64 // c
-o `tab	here`
-    , }MetaData
-    int{// " ++ [128512]%N ++ runes_of_ascii " emoji
-char[]
-    // `tick` ""quote"" 'q'
-    chars `it's`,	int crc `{ , }`, // @lengthOf(
-}root packet chars
-    { char[]
-x_y_z , }
-// trailing space 
+Eval vm_compute in ("<<<M3543>>>" ++ check (runes_of_ascii "options {
+    LittleEndian = true;
+    FixedStringPadFromLeft = true;
+    FixedStringPadChar = '0';
+}
+packet Trade {
+    string clOrdID,
+    char[] Px,
+    u32 x,
+}
+packet Reject {
+    int32 Side2,
+    repeat char[3] clOrdID,
+    i32 tag7,
+}
+packet Leg {
+}
+root packet Quote {
+    string Side2,
+    string lastPx,
+    InSym58 {
+        int16 OrderId,
+        Reject,
+        i8 Qty,
+        i64 venue,
+        f32 Note,
+    },
+    char[] count,
+    zchar[9] price,
+    u16 Qty,
+    match Qty as Body {
+        69 : Leg,
+        48 : Trade,
+        51 : Reject,
+    },
+    u16 Acct @calculatedFrom(""CR\
+C32""),
+}
 ")).
+Eval vm_compute in ("<<<M3487>>>" ++ check (runes_of_ascii "options { // c1a
+  // c1b
+FixedStringPadChar = // c3
+'0'
+    // c4
+; // c5
+} packet
+    // c7
+Q { zchar[ // c10a
+  // c10b
+4 // c11
+] // c12a
+  // c12b
+z ,
+    // c14
+@rightPad // c15
+( // c16
+'\x00' )
+    // c18
+char[ // c19a
+  // c19b
+3 ] // c21
+n
+    // c22
+,
+    // c23
+char[
+    // c24
+5
+    // c25
+] // c26a
+  // c26b
+d , // c28a
+  // c28b
+} // c29a
+  // c29b
+root // c30
+packet // c31
+R // c32
+{ // c33a
+  // c33b
+Q // c34a
+  // c34b
+, zchar[
+    // c36
+8
+    // c37
+] // c38
+top
+    // c39
+, // c40
+repeat // c41
+zchar[ // c42
+2 ] // c44
+zs // c45
+,
+    // c46
+} ")).
+Eval vm_compute in ("<<<M3982>>>" ++ check (runes_of_ascii "  packet chars  { 
+    // `tick` ""quote"" 'q'
+// `tick` ""quote"" 'q'
+	@lengthOf( trueish
+)
+char[10
+    ]
+	metadata  
+      //	t
+    // packet A { u8 x, }
+
+	@calculatedFrom(
+""x y""
+)  ,MetaDataX
+
+@lengthOf(
+    BodyLength ) 
+`u8 x,`	, 
+match 
+x 
+// trailing space 
+as 
+trueish
+
+{
+7  /// triple
+  : 
+matchKey
+,
+} , }
+root
+
+packet
+    len	{  // packet A { u8 x, }
+      x@lengthOf( Pad// `tick` ""quote"" 'q'
+  	)
+, asx	{pack  _x ,
+}, }
+
+MetaData	// `tick` ""quote"" 'q'
+pack { int8	//x
+    zchar
+    // @lengthOf(
+
+`tab	here`
+    ,}
+
+")).
+Eval vm_compute in ("<<<M442>>>" ++ check (runes_of_ascii "packet u8x {match BodyLength	as // c
+string_{ // c
+""\" ++ [233]%N ++ runes_of_ascii """	:
+zchar
+}
+    ,}  packet// trailing space 
+metadata
+    {// `tick` ""quote"" 'q'
+@tag( //
+0123456789	) /// triple
+@leftPad // `tick` ""quote"" 'q'
+( '\x00' )repeat	char[] trueish , repeat metadata {
+char[]
+    float `line1
+line2`
+, char[// " ++ [128512]%N ++ runes_of_ascii " emoji
+00] T,
+uint8x {repeat len string_
+    `doc` , }
+    // @lengthOf(
+    , options1 @lengthOf(
+    T
+)`say ""hi""` , } , @calculatedFrom(
+    ""CRC32"" //
+) uint16 BodyLength  @calculatedFrom( """ ++ [28040; 24687]%N ++ runes_of_ascii """ )
+, } //	t")).
+Eval vm_compute in ("<<<M3906>>>" ++ check (runes_of_ascii "packet u {
+    repeat zchar[0123456789] x `tab	here`,
+    @lengthOf(u8x)
+    @tag(3)
+    @tag(255)
+    options1 f32a `tab	here`,
+    string BodyLength `u8 x,`,
+    @calculatedFrom(""" ++ [28040; 24687]%N ++ runes_of_ascii """)
+    string u8x `" ++ [28040; 24687; 31867; 22411]%N ++ runes_of_ascii "`,
+    char[3] BodyLength,// " ++ [128512]%N ++ runes_of_ascii " emoji
+    match rootA as msg_type {
+        007 : MetaDataX,
+        // " ++ [27880; 37322]%N ++ runes_of_ascii "
+        [1, 255, ""CRC32"", 4294967296] : tag,
+    },
+    float64 a1 `doc`,
+    @calculatedFrom(""a	b"")
+    char[3] body,
+    _x,
+}
+
+root packet len {
+    repeat o rootA,
+}")).
+Eval vm_compute in ("<<<M857>>>" ++ check (runes_of_ascii "packet
+    charz// `tick` ""quote"" 'q'
+{
+@rightPad
+    ( '0' ) match leftPad as stringy
+{	007
+//	t
+// " ++ [128512]%N ++ runes_of_ascii " emoji
+:
+    a1 [ 42 , ""{,}"",""`tick`"" ,
+    10
+//	t
+/// triple
+]
+    :rootA , ""a	b"" :  Logon},// @lengthOf(
+} packet/// triple
+float  {	repeat pack { zchar[ 255
+    // `tick` ""quote"" 'q'
+    ]// `tick` ""quote"" 'q'
+repeatCount @lengthOf( uint8x ) `u8 x,` , }
+    ,
+    // " ++ [27880; 37322]%N ++ runes_of_ascii "
+    charz
+@lengthOf(
+    _x )
+`it's` ,// @lengthOf(
+} root packet  rootA
+    { //
+}
+")).
+Eval vm_compute in ("<<<M662>>>" ++ check (runes_of_ascii "packet
+    Foo {repeat u {char[ 0123456789 ]
+    string_
+@calculatedFrom(""it's"")
+    `" ++ [233]%N ++ runes_of_ascii "` , }, } options { Foo =
+    ""a\\"";
+msg_type= 4294967296 o = ""CRC32"" ;
+options1 = char[ // " ++ [128512]%N ++ runes_of_ascii " emoji
+7
+]; }
+    root packet	u{match
+    _x as
+rootA
+{
+007 :
+    f32a
+[ 007
+] :
+    u8x
+,[ 007
+,  ""packet""
+]
+    // @lengthOf(
+    :
+_x, [
+// packet A { u8 x, }
+// trailing space 
+007 ,  10 ]
+: i64_, }
+, int8 charz
+    // `tick` ""quote"" 'q'
+    `two words` ,}
+")).
+Eval vm_compute in ("<<<M1031>>>" ++ check (runes_of_ascii "options {x = ""it's""}MetaData falsey// trailing space 
+{
+char[0123456789 ] lengthOf,
+zchar[0123456789 ] stringy , falsey metadata
+, zchar[007 ]rootA `` , }MetaData
+trueish{  int8 x ,
+// packet A { u8 x, }
+// " ++ [128512]%N ++ runes_of_ascii " emoji
+f32 len , pack BodyLength `a\` ,
+}packet Pad
+{ @leftPad //	t
+(
+'0' ) u8x @calculatedFrom(""CRC32"" ) , }root packet _x { msg_type	{ lengthOf ,  uint32	packetx
+`` , },repeat int64
+zchar `line1
+line2`,body Header,
+}
+")).
+Eval vm_compute in ("<<<M253>>>" ++ check (runes_of_ascii "packet pack
+{ @rightPad (' ' ) A// c
+@calculatedFrom( ""a\\"" )
+// " ++ [128512]%N ++ runes_of_ascii " emoji
+// " ++ [128512]%N ++ runes_of_ascii " emoji
+`
+` , u8
+    f32a, zchar[007 ] rootA
+    `u8 x,`, repeat
+/// triple
+// a // b
+string u128 //
+`u8 x,`, @leftPad( ' ' ) char[ 1 ] repeatCount@calculatedFrom( //x
+""\n"" ) `doc`,
+    o
+,
+falsey
+    leftPad,@calculatedFrom(""a\""b"") @leftPad
+    ('0' )
+//
+// " ++ [27880; 37322]%N ++ runes_of_ascii "
+roots	{
+u8
+zchar @lengthOf(	Logon ) // trailing space 
+,
+// c
+//	t
+} , }")).
+Eval vm_compute in ("<<<M105>>>" ++ check (runes_of_ascii "
+MetaData u8x {
+    packetx
+    len `crlf
+line`
+    ,char[
+255
+] calculatedFrom `" ++ [28040; 24687; 31867; 22411]%N ++ runes_of_ascii "` , float64  MetaDataX // `tick` ""quote"" 'q'
+`say ""hi""` ,BodyLength
+// `tick` ""quote"" 'q'
+// trailing space 
+charz
+`crlf
+line`// a // b
+,
+}packet lengthOf{
+    //	t
+    @tag( 4294967296 ) uint8x @calculatedFrom(
+    ""\n"" ) `" ++ [28040; 24687; 31867; 22411]%N ++ runes_of_ascii "` ,
+    char calculatedFrom	@calculatedFrom(
+""" ++ [28040; 24687]%N ++ runes_of_ascii """) // " ++ [27880; 37322]%N ++ runes_of_ascii "
+`two words` , }
+")).
+Eval vm_compute in ("<<<M22>>>" ++ check (runes_of_ascii "packet  Pad{
+@leftPad ( '0' ) @calculatedFrom( ""`tick`""
+    )// @lengthOf(
+match
+    i64_ as x
+    {
+    /// triple
+    00: zchar
+    , } , i8i8 o // " ++ [27880; 37322]%N ++ runes_of_ascii "
+,char[] _x
+, repeat zchar[007 ] trueish
+    ,zchar @lengthOf( trueish)`{ , }`
+,// c
+@calculatedFrom(""a\""b"") @tag( 1 ) trueish zchar ,
+char[
+    3 ] rootA @calculatedFrom(
+    ""a\""b"" )
+`tab	here`
+//	t
+// trailing space 
+,
+}")).
+Eval vm_compute in ("<<<M1048>>>" ++ check (runes_of_ascii "
+packet i64_	{
+    @rightPad(	'\x00' ) char[] zchar, repeat string stringy ,repeat stringy // @lengthOf(
+`{ , }`  , MetaDataX metadata , char[
+    42 // c
+]calculatedFrom `doc`
+    ,zchar[ 4294967296	] repeatCount , }	MetaData msg_type { } packet
+body
+{ zchar[ 00] string_ @calculatedFrom( ""\" ++ [233]%N ++ runes_of_ascii """
+    ) `two words`
+, string_ @lengthOf( A ) `line1
+line2`
+,
+    }")).
+Eval vm_compute in ("<<<M3942>>>" ++ check (runes_of_ascii "root	packet  x 
+{ string packetx 
+// @lengthOf(
+  `{ , }`
+
+, char stringy
+`// not a comment` , match 
+charz
+    as u128
+{
+""" ++ [128512]%N ++ runes_of_ascii """: _x ,
+
+0 :
+	options1 	 // packet A { u8 x, }
+  42 :
+
+    trueish ,[ 
+	    // @lengthOf(
+  // `tick` ""quote"" 'q'
+    ""it's""  ,	00 ,""" ++ [28040; 24687]%N ++ runes_of_ascii """,	""\n""
+// trailing space 
+  ,
+
+255 , 00  ]
+: 
+lengthOf
+, 1 :len	,
+    },
+    } ")).
+Eval vm_compute in ("<<<M3745>>>" ++ check (runes_of_ascii "packet A {
+    // c2
+    u8 a,
+    // c5
+}
+
+// c6
+packet B {
+    // c9
+    u16 b,// c12
+}
+
+// c13
+root packet P {
+    u8 K1,// c20a
+    // c20b
+    u8 K2,// c23a
+    // c23b
+    match K1 as M1 {
+        1 : A,
+        // c32a
+        // c32b
+    },// c34
+    match K2 as M2 {
+        // c39
+        1 : B,
+        // c43
+    },
+}")).
 Eval vm_compute in ("<<<M1312>>>" ++ check (runes_of_ascii "packet repeatCount {@tag(  7 )int16 crc, zchar[007]  a1 @lengthOf( falsey) , repeat char[]	Packet, o , } packet crc
 { @rightPad ('\x00' ) @rightPad
 ('0'	) i64 A
@@ -1582,94 +1539,18 @@ stringy as o {
 )
     Packet ,  }
 ")).
-Eval vm_compute in ("<<<M4019>>>" ++ check (runes_of_ascii "packet chars {
-    @rightPad()
-    @tag(42)
-    @tag(00)
-    int len,
-    zchar[4294967296] asx ``,
-    @rightPad('0')
-    @calculatedFrom(""{,}"")
-    @lengthOf(repeatCount)
-    repeat uint64 falsey `doc`,
-    repeat zchar[0] u8x,
-}
-
-MetaData crc {
-    uint32 packetx,
-}
-
-packet float {
-    //
-    u128 _x,
-}")).
-Eval vm_compute in ("<<<M4082>>>" ++ check (runes_of_ascii "
-options{ LittleEndian
-= true ;  }packet
-
-Logon
-
-    { u8
-x
-
-    , }	packet
-Logout	{ u16 reason,
-}	root packet	Frame	{
-i64
-Kind
-    ,
-
-    i64 Kind2
-,
-match
-
-    Kind
-as  Body
-
-{ 1 : Logon	, [
-	2
-, 
-3 ,
-4 ] :
-	Logout
-	,	100  :  Logon ,} ,
-match	Kind2
-as
-
-Trailer 
-{ 
-0	:  Logout , }	,
-}
-")).
-Eval vm_compute in ("<<<M1487>>>" ++ check (runes_of_ascii "root packet Foo // " ++ [128512]%N ++ runes_of_ascii " emoji
-{ } options {
-    // a // b
-    tag // `tick` ""quote"" 'q'
-= //	t
-""""
-    ; u8x = zchar[0  true }
-MetaData
-    int {zchar[ 10]
-lengthOf	`` , i64 u8x`// not a comment` ,MetaDataX pack// `tick` ""quote"" 'q'
-`crlf
-line`
-, Logon charz `crlf
-line`
-    ,
-    // a // b
-    }
-")).
-Eval vm_compute in ("<<<M1610>>>" ++ check (runes_of_ascii "root packet Foo // " ++ [128512]%N ++ runes_of_ascii " emoji
+Eval vm_compute in ("<<<M1570>>>" ++ check (runes_of_ascii "root packet Foo // " ++ [128512]%N ++ runes_of_ascii " emoji
 { } options {
     // a // b
     tag // `tick` ""quote"" 'q'
 = //	t
 """"
     ; u8x = zchar[0  ] }
-' MetaData
+MetaData
     int {zchar[ 10]
 lengthOf	`` , i64 u8x`// not a comment` ,MetaDataX pack// `tick` ""quote"" 'q'
 `crlf
+line` `crlf
 line`
 , Logon charz `crlf
 line`
@@ -1677,13 +1558,13 @@ line`
     // a // b
     }
 ")).
-Eval vm_compute in ("<<<M1466>>>" ++ check (runes_of_ascii "root packet Foo // " ++ [128512]%N ++ runes_of_ascii " emoji
+Eval vm_compute in ("<<<M1462>>>" ++ check (runes_of_ascii "root packet Foo // " ++ [128512]%N ++ runes_of_ascii " emoji
 { } options {
     // a // b
     tag // `tick` ""quote"" 'q'
 = //	t
 """"
-    ; = u8x zchar[0  ] }
+    char[] u8x = zchar[0  ] }
 MetaData
     int {zchar[ 10]
 lengthOf	`` , i64 u8x`// not a comment` ,MetaDataX pack// `tick` ""quote"" 'q'
@@ -1695,8 +1576,8 @@ line`
     // a // b
     }
 ")).
-Eval vm_compute in ("<<<M1439>>>" ++ check (runes_of_ascii "root packet Foo // " ++ [128512]%N ++ runes_of_ascii " emoji
-{ } options 
+Eval vm_compute in ("<<<M1425>>>" ++ check (runes_of_ascii "root packet Foo // " ++ [128512]%N ++ runes_of_ascii " emoji
+{ { } options {
     // a // b
     tag // `tick` ""quote"" 'q'
 = //	t
@@ -1713,36 +1594,7 @@ line`
     // a // b
     }
 ")).
-Eval vm_compute in ("<<<M1539>>>" ++ check (runes_of_ascii "root packet Foo // " ++ [128512]%N ++ runes_of_ascii " emoji
-{ } options {
-    // a // b
-    tag // `tick` ""quote"" 'q'
-= //	t
-""""
-    ; u8x = zchar[0  ] }
-MetaData
-    int {zchar[ 10]
-lengthOf	`` ,  u8x`// not a comment` ,MetaDataX pack// `tick` ""quote"" 'q'
-`crlf
-line`
-, Logon charz `crlf
-line`
-    ,
-    // a // b
-    }
-")).
-Eval vm_compute in ("<<<M92>>>" ++ check (runes_of_ascii "root
-    packet packetx {	uint32
-x_y_z@calculatedFrom( """ ++ [233]%N ++ runes_of_ascii "t" ++ [233]%N ++ runes_of_ascii """ ) ,@calculatedFrom(
-    ""{,}"" // trailing space 
-)	float calculatedFrom
-`line1
-line2` ,u16 Packet @lengthOf( f32a ) ,
-char[] o `tab	here`, @calculatedFrom( ""x y""  )T {
-repeat i64 chars , } ,
-i16  roots	,
-} // @lengthOf(")).
-Eval vm_compute in ("<<<M1602>>>" ++ check (runes_of_ascii "root packet Foo // " ++ [128512]%N ++ runes_of_ascii " emoji
+Eval vm_compute in ("<<<M1609>>>" ++ check (runes_of_ascii "root packet Foo // " ++ [128512]%N ++ runes_of_ascii " emoji
 { } options {
     // a // b
     tag // `tick` ""quote"" 'q'
@@ -1756,157 +1608,118 @@ lengthOf	`` , i64 u8x`// not a comment` ,MetaDataX pack// `tick` ""quote"" 'q'
 line`
 , Logon charz `crlf
 line`
-    ,")).
-Eval vm_compute in ("<<<M380>>>" ++ check (runes_of_ascii "options {
-falsey =
-    ""a	b"" ;leftPad = '0'// " ++ [128512]%N ++ runes_of_ascii " emoji
-; o =// c
-float64 } packet//
-x { match f32a
-as uint8x {
-[
-    255 ,
-    7 , 42
+   % ,
+    // a // b
+    }
+")).
+Eval vm_compute in ("<<<M1536>>>" ++ check (runes_of_ascii "root packet Foo // " ++ [128512]%N ++ runes_of_ascii " emoji
+{ } options {
+    // a // b
+    tag // `tick` ""quote"" 'q'
+= //	t
+""""
+    ; u8x = zchar[0  ] }
+MetaData
+    int {zchar[ 10]
+lengthOf	`` i64 , u8x`// not a comment` ,MetaDataX pack// `tick` ""quote"" 'q'
+`crlf
+line`
+, Logon charz `crlf
+line`
+    ,
+    // a // b
+    }
+")).
+Eval vm_compute in ("<<<M1534>>>" ++ check (runes_of_ascii "root packet Foo // " ++ [128512]%N ++ runes_of_ascii " emoji
+{ } options {
+    // a // b
+    tag // `tick` ""quote"" 'q'
+= //	t
+""""
+    ; u8x = zchar[0  ] }
+MetaData
+    int {zchar[ 10]
+lengthOf	``  i64 u8x`// not a comment` ,MetaDataX pack// `tick` ""quote"" 'q'
+`crlf
+line`
+, Logon charz `crlf
+line`
+    ,
+    // a // b
+    }
+")).
+Eval vm_compute in ("<<<M1562>>>" ++ check (runes_of_ascii "root packet Foo // " ++ [128512]%N ++ runes_of_ascii " emoji
+{ } options {
+    // a // b
+    tag // `tick` ""quote"" 'q'
+= //	t
+""""
+    ; u8x = zchar[0  ] }
+MetaData
+    int {zchar[ 10]
+lengthOf	`` , i64 u8x`// not a comment` ,@tag( pack// `tick` ""quote"" 'q'
+`crlf
+line`
+, Logon charz `crlf
+line`
+    ,
+    // a // b
+    }
+")).
+Eval vm_compute in ("<<<M773>>>" ++ check (runes_of_ascii "
+packet u8x { int32
+u , @leftPad
+    ( '\x00' )	int16
     /// triple
-    , 7 ,  ""abc""
-    , 255 , ""1"" //	t
-, 0 ]:matchKey
+    leftPad
+    ,@lengthOf(
+    stringy ) uint32 BodyLength@calculatedFrom(
+""" ++ [28040; 24687]%N ++ runes_of_ascii """// a // b
+)
+    `say ""hi""` ,	} root packet  msg_type {float64  Foo ,string repeatCount
+    ,} root packet
+    repeatCount {
+    }")).
+Eval vm_compute in ("<<<M522>>>" ++ check (runes_of_ascii "packet As{ // packet A { u8 x, }
+repeatCount @lengthOf( Pad )`" ++ [28040; 24687; 31867; 22411]%N ++ runes_of_ascii "`, // c
+}MetaData uint8x { char[
+    3 ] o`say ""hi""`, uint16 A, leftPad
+    matchKey ,char[] As `line1
+line2`	, u32 string_ ,/// triple
+metadata len , } packet
+    options1 {metadata	options1// " ++ [27880; 37322]%N ++ runes_of_ascii "
 ,
+}
+")).
+Eval vm_compute in ("<<<M1145>>>" ++ check (runes_of_ascii "
+packet Pad
+{ @lengthOf(
+    // c
+    x_y_z) @leftPad (
+    ' ' )	@tag(65535
+)
+roots uint8x// @lengthOf(
+, trueish
+    { char[]float @calculatedFrom( ""it's"" )
+, a1 u128 , }
+,@tag( 42
+) repeat float `" ++ [28040; 24687; 31867; 22411]%N ++ runes_of_ascii "`
     // trailing space 
-    } , } // packet A { u8 x, }")).
-Eval vm_compute in ("<<<M509>>>" ++ check (runes_of_ascii "MetaData len
-{ f64 u ,char[] Z9_ `doc` ,metadata
-    // " ++ [27880; 37322]%N ++ runes_of_ascii "
-    A,i64 stringy`line1
-line2` , A int`line1
-line2` // `tick` ""quote"" 'q'
-, f32 i8i8 , }packet
-// c
-//
-stringy/// triple
-{ @calculatedFrom( """ ++ [128512]%N ++ runes_of_ascii """
-    )char[]
-roots, }
-root packet metadata {
-}")).
-Eval vm_compute in ("<<<M788>>>" ++ check (runes_of_ascii "  root
-packet i64_ {
-    @calculatedFrom( ""\n"") repeat// packet A { u8 x, }
-uint32	BodyLength ,@leftPad /// triple
-( ' ' // @lengthOf(
-) i32
-falsey@lengthOf( i64_  )//x
-`line1
-line2`  , @rightPad
-    ( ) repeat int64 int`" ++ [233]%N ++ runes_of_ascii "` ,
-    }
-// " ++ [27880; 37322]%N ++ runes_of_ascii "
+    ,// trailing space 
+}
 ")).
-Eval vm_compute in ("<<<M1392>>>" ++ check (runes_of_ascii "MetaData matchKey// `tick` ""quote"" 'q'
-{ metadata u8x
-    ,int8 chars ,
-// @lengthOf(
-//
-MetaDataX u128``
-, }MetaData As{ uint8x
-u , u32
-falsey `" ++ [28040; 24687; 31867; 22411]%N ++ runes_of_ascii "` ,
-zchar[ 1 ] tag ,
-    zchar[ 0 ] float
+Eval vm_compute in ("<<<M537>>>" ++ check (runes_of_ascii "MetaData charz {}// " ++ [27880; 37322]%N ++ runes_of_ascii "
+root packet matchKey{o  @calculatedFrom( ""a\""b"") ,zchar[ 10
+]i8i8 @calculatedFrom( ""1"" )
+`tab	here` ,
+match crc as rootA { 255 : Z9_ , 42 : // c
+lengthOf
 ,
-char[]  metadata
-, } // @lengthOf(")).
-Eval vm_compute in ("<<<M771>>>" ++ check (runes_of_ascii "packet Logon { @lengthOf( Pad
-    ) int{ match matchKey
-as
-Pad { ""CRC32"" :
-body
-,
-    }
-    ,  len
-    // `tick` ""quote"" 'q'
-    @lengthOf(// `tick` ""quote"" 'q'
-chars )
-    /// triple
-    , float
-@lengthOf( Foo ), } , }
+[ 0 ,007
+    ] : Logon  ""\n"" : T 0123456789 :  float  ,
+    } , }
 ")).
-Eval vm_compute in ("<<<M262>>>" ++ check (runes_of_ascii "packet charz
-{ @lengthOf(leftPad ) charz  @calculatedFrom( ""a\""b""
-)`it's`	, char[]
-Foo ,	uint8 MetaDataX `u8 x,`
-    ,int64 i8i8 , @calculatedFrom( ""a	b""
-) zchar[ // trailing space 
-7 ] string_, } MetaData Pad{
-    }")).
-Eval vm_compute in ("<<<M2371>>>" ++ check (runes_of_ascii "MetaData Packet { }packet	asx  { @lengthOf( asx) falsey`crlf
-line`
-,
-    }
-    packet x	{uint32// @lengthOf(
-rootA	,u32 options1 `say ""hi""` , @tag( 7
-    )// packet A { u8 x, }
-msg_type @lengthOf(
-stringy	)	, } }
-
-")).
-Eval vm_compute in ("<<<M2262>>>" ++ check (runes_of_ascii "MetaData Packet { }packet	asx  { @lengthOf( asx) `crlf
-line`falsey
-,
-    }
-    packet x	{uint32// @lengthOf(
-rootA	,u32 options1 `say ""hi""` , @tag( 7
-    )// packet A { u8 x, }
-msg_type @lengthOf(
-stringy	)	, }
-
-")).
-Eval vm_compute in ("<<<M2275>>>" ++ check (runes_of_ascii "MetaData Packet { }packet	asx  { @lengthOf( asx) falsey`crlf
-line`
-,
-    
-    packet x	{uint32// @lengthOf(
-rootA	,u32 options1 `say ""hi""` , @tag( 7
-    )// packet A { u8 x, }
-msg_type @lengthOf(
-stringy	)	, }
-
-")).
-Eval vm_compute in ("<<<M4363>>>" ++ check (runes_of_ascii "
-options  /// triple
-    { 
-T
-
-    =//
-
-  """ ++ [128512]%N ++ runes_of_ascii """  ;
-	o
-=  '\x00'	As  =
-'\x00'//	t
-tag  =	// a // b
-  ""1""
-
-}root
-packet MetaDataX
-
-    {  @rightPad
-(
-
-    '0')	_x
-    `// not a comment`	, /// triple
-
-  }
-")).
-Eval vm_compute in ("<<<M7>>>" ++ check (runes_of_ascii "MetaData trueish {	tag Foo `say ""hi""` , zchar[ 4294967296 ]
-    charz // packet A { u8 x, }
-,
-/// triple
-// a // b
-Z9_ _x ,
-char[	0123456789 ] lengthOf
-    , i64 u8x `// not a comment` , f32a a1 `doc`,	}
-")).
-Eval vm_compute in ("<<<M1568>>>" ++ check (runes_of_ascii "root packet Foo // " ++ [128512]%N ++ runes_of_ascii " emoji
+Eval vm_compute in ("<<<M1578>>>" ++ check (runes_of_ascii "root packet Foo // " ++ [128512]%N ++ runes_of_ascii " emoji
 { } options {
     // a // b
     tag // `tick` ""quote"" 'q'
@@ -1915,462 +1728,678 @@ Eval vm_compute in ("<<<M1568>>>" ++ check (runes_of_ascii "root packet Foo // "
     ; u8x = zchar[0  ] }
 MetaData
     int {zchar[ 10]
-lengthOf	`` , i64 u8x`// not a comment` ,MetaDataX")).
-Eval vm_compute in ("<<<M604>>>" ++ check (runes_of_ascii "options { rootA = '\x00' _x = true
-//
-// @lengthOf(
-}
-    packet //
-uint8x
-{ uint16 u
-    /// triple
-    @lengthOf( x_y_z )
-    //
-    `say ""hi""` ,} MetaData // @lengthOf(
-_x { } options
-{ }
+lengthOf	`` , i64 u8x`// not a comment` ,MetaDataX pack// `tick` ""quote"" 'q'
+`crlf
+line`")).
+Eval vm_compute in ("<<<M458>>>" ++ check (runes_of_ascii "// packet A { u8 x, }
+options { matchKey
+    =  char[] x = char[] // " ++ [27880; 37322]%N ++ runes_of_ascii "
+} packet i64_{ repeat pack
+    `say ""hi""`, i16 calculatedFrom `u8 x,`,} MetaData calculatedFrom
+{ // trailing space 
+Logon Packet , } // `tick` ""quote"" 'q'")).
+Eval vm_compute in ("<<<M2231>>>" ++ check (runes_of_ascii "MetaData Packet { }packet packet	asx  { @lengthOf( asx) falsey`crlf
+line`
+,
+    }
+    packet x	{uint32// @lengthOf(
+rootA	,u32 options1 `say ""hi""` , @tag( 7
+    )// packet A { u8 x, }
+msg_type @lengthOf(
+stringy	)	, }
+
 ")).
-Eval vm_compute in ("<<<M1374>>>" ++ check (runes_of_ascii "// c
-packet // `tick` ""quote"" 'q'
-f32a{ }  MetaData rootA { zchar[007 // trailing space 
-] As
-, A u,a1
-A
+Eval vm_compute in ("<<<M1059>>>" ++ check (runes_of_ascii "// " ++ [128512]%N ++ runes_of_ascii " emoji
+MetaData //x
+Foo
+    { }  MetaData
+x {
+}MetaData zchar
+{ options1	f32a , int32 stringy ,
+    string
+    msg_type
+`
+` ,string T , a1 trueish `{ , }`
+// packet A { u8 x, }
+/// triple
+, f32 BodyLength
+    , }")).
+Eval vm_compute in ("<<<M2385>>>" ++ check (runes_of_ascii "MetaData Packet { }packet	asx  { @lengthOf( asx) falsey`crlf
+line`
 ,
-} root
-packet  Logon // @lengthOf(
-{	@tag( 1 )	x_y_z
-{ repeat
-u
-_x , } , }")).
-Eval vm_compute in ("<<<M147>>>" ++ check (runes_of_ascii "root packet stringy { @tag( 7 ) @tag( 1
-    ) @rightPad (
-'\x00'
-    )Foo // `tick` ""quote"" 'q'
-x`crlf
-line` ,@calculatedFrom(  ""a	b"" ) roots //x
-`it's`// @lengthOf(
+    }
+    packet x	{uint32// @lengthOf(
+rootA	,u32 options1 `say ""hi""` , @tag( 7
+    )// packet A { u8 x, }
+msg_type @lengthOf(
+stringy	)	@, }
+
+")).
+Eval vm_compute in ("<<<M2332>>>" ++ check (runes_of_ascii "MetaData Packet { }packet	asx  { @lengthOf( asx) falsey`crlf
+line`
 ,
-    }")).
-Eval vm_compute in ("<<<M4353>>>" ++ check (runes_of_ascii "  root
+    }
+    packet x	{uint32// @lengthOf(
+rootA	,u32 options1 `say ""hi""` , 7 @tag(
+    )// packet A { u8 x, }
+msg_type @lengthOf(
+stringy	)	, }
+
+")).
+Eval vm_compute in ("<<<M4421>>>" ++ check (runes_of_ascii "
+options
+	{// `tick` ""quote"" 'q'
+    len // `tick` ""quote"" 'q'
+	  = """ ++ [28040; 24687]%N ++ runes_of_ascii """
+	;  options1	= // " ++ [27880; 37322]%N ++ runes_of_ascii "
+int32
+
+    zchar
+=""1"" ;float = 
+true tag = """ ++ [28040; 24687]%N ++ runes_of_ascii """  ;
+} MetaData
+    u128{msg_type	i8i8 `doc` , o
+
+    body  ,	}
+")).
+Eval vm_compute in ("<<<M3997>>>" ++ check (runes_of_ascii "MetaData MetaDataX {
+    stringy chars,
+    Z9_ Foo,
+}
+
+options {
+}// " ++ [27880; 37322]%N ++ runes_of_ascii "
+
+packet x_y_z {
+}
+
+packet stringy {
+    uint64 packetx,
+    o,
+    metadata MetaDataX,
+    repeat float32 len,
+    i64_,
+}
+
+options {
+}")).
+Eval vm_compute in ("<<<M3955>>>" ++ check (runes_of_ascii "
+root
+
+    packet 
+msg_type 
+    // " ++ [27880; 37322]%N ++ runes_of_ascii "
+//	t
+		{string
+    lengthOf
+
+    `a\` , @tag(
+    65535
+
+)
+	rootA
+
+calculatedFrom	, char[] crc
+`{ , }`
+, zchar[
+    // c
+		//	t
+    65535 
+]  msg_type,	}
+")).
+Eval vm_compute in ("<<<M155>>>" ++ check (runes_of_ascii "packet pack
+    { @calculatedFrom(
+""CRC32""
+) i8i8 { MetaDataX @lengthOf( x
+//x
+// packet A { u8 x, }
+), char As @lengthOf( len	) ,
+// " ++ [128512]%N ++ runes_of_ascii " emoji
+//x
+chars metadata `say ""hi""` , char[ 0] int ,}, }
+")).
+Eval vm_compute in ("<<<M4462>>>" ++ check (runes_of_ascii "// " ++ [128512]%N ++ runes_of_ascii " emoji
+MetaData Foo {
+}
+
+MetaData x {
+}
+
+MetaData zchar {
+    options1 f32a,
+    int32 stringy,
+    string msg_type `
+    `,
+    string T,
+    a1 trueish `{ , }`,
+    f32 BodyLength,
+}")).
+Eval vm_compute in ("<<<M3574>>>" ++ check (runes_of_ascii "packet 
+BodyLength
+
+{
+repeat u128 charz  ,
+i64
+
+    i64_
+@lengthOf( asx  ) ,repeat
+    i64_ {repeat int
+    `u8 x,`
+,	//	t
+  	}
+    , repeat
+	float32 pack
+    `" ++ [233]%N ++ runes_of_ascii "`
+
+    ,
+    }
+")).
+Eval vm_compute in ("<<<M1080>>>" ++ check (runes_of_ascii "packet
+// `tick` ""quote"" 'q'
+// " ++ [27880; 37322]%N ++ runes_of_ascii "
+len
+{
+match x as  pack { // @lengthOf(
+3 : MetaDataX 255
+    :Foo , 00
+:
+o
+}, @calculatedFrom(  ""CRC32"" ) u128@lengthOf(packetx	) ,
+}")).
+Eval vm_compute in ("<<<M3659>>>" ++ check (runes_of_ascii "options {
+    len = true;
+    MetaDataX = zchar[00]
+    lengthOf = '0';
+    Pad = ""packet"";
+    x_y_z = ""a\""b"";
+}
+
+packet calculatedFrom {
+    repeat matchKey Foo,
+}")).
+Eval vm_compute in ("<<<M1104>>>" ++ check (runes_of_ascii "packet
+As {u128 MetaDataX , char[
+3
+] falsey ,  } options { falsey
+    /// triple
+    = ""it's""	;
+}MetaData a1
+{u8x A , matchKey _x `" ++ [28040; 24687; 31867; 22411]%N ++ runes_of_ascii "` ,
+    string T
+, }")).
+Eval vm_compute in ("<<<M4493>>>" ++ check (runes_of_ascii "
+options{ 
+charz
+= 
+00
+;
+leftPad
+    =
+
+zchar[0123456789
+
+]
+; 
+//x
+  	/// triple
+} options	{
+falsey
+    =
+u32;
+}	root
 
     packet
 
-charz 
-{ @calculatedFrom(
+float
 
-""a	b""
-)
-repeat
-
-f32a
-
-options1
-
-    `u8 x,`
-    , } options{  // " ++ [27880; 37322]%N ++ runes_of_ascii "
-
-zchar
-= char[3
-	]
-    ; }
-        /// triple
- 
-")).
-Eval vm_compute in ("<<<M1307>>>" ++ check (runes_of_ascii "MetaData
-stringy { zchar[ 255 ] u`
-` , // packet A { u8 x, }
-string repeatCount ,
-    As i8i8 `{ , }` ,
-string x_y_z
-    // c
-    , uint16 Pad , uint32
-asx ,
+{
 }
 ")).
-Eval vm_compute in ("<<<M952>>>" ++ check (runes_of_ascii "packet msg_type
-{ char[]
-    body@calculatedFrom(
-    ""1"" )`doc` , @tag( 00 ) lengthOf
-@lengthOf( // c
-trueish)
-    `crlf
-line` , } // trailing space ")).
-Eval vm_compute in ("<<<M346>>>" ++ check (runes_of_ascii "packet BodyLength {repeat u128 charz ,
-i64 i64_
-@lengthOf(
-asx )
+Eval vm_compute in ("<<<M4465>>>" ++ check (runes_of_ascii "
+packet
+    calculatedFrom
+
+    {  @tag( 
+4294967296
+
+) 	 // c
+u 
+msg_type 
 ,
-repeat
-    i64_ { repeat int `u8 x,` , //	t
-},repeat float32
-pack
-`" ++ [233]%N ++ runes_of_ascii "` ,
-    }")).
-Eval vm_compute in ("<<<M1668>>>" ++ check (runes_of_ascii "root packet /// triple
+char[
+
+3 ] crc  @lengthOf(
+len
+
+    ) `u8 x,`
+
+    ,
+    } ")).
+Eval vm_compute in ("<<<M4163>>>" ++ check (runes_of_ascii "
+
+  packet
+
+    calculatedFrom
+	{
+@tag(  4294967296
+
+) 
+u
+
+    msg_type , char[  3
+
+    ]
+crc
+@lengthOf(
+len )
+`u8 x,`  ,
+}	// c
+")).
+Eval vm_compute in ("<<<M309>>>" ++ check (runes_of_ascii "options {
+Pad = // " ++ [27880; 37322]%N ++ runes_of_ascii "
+3 ; float =
+false
+    // packet A { u8 x, }
+    ;
+Z9_ =""packet""	chars=
+""a\""b"" float=
+""a\\""} MetaData zchar { } 	 ")).
+Eval vm_compute in ("<<<M3604>>>" ++ check (runes_of_ascii "packet
+    calculatedFrom
+{
+    @tag( 
+    // c
+
+	4294967296
+    )
+	u	msg_type	,char[
+	3 ]crc
+	@lengthOf(
+len
+    )
+`u8 x,` 
+,	}
+
+")).
+Eval vm_compute in ("<<<M3435>>>" ++ check (runes_of_ascii "
+packet	B
+{
+	u8 a	, 
+}
+
+    root
+
+packet P {  u8  K , 
+u8
+    L @lengthOf(
+Body)
+
+,	match
+K as Body
+{  1
+
+    :B,  }	,
+	} ")).
+Eval vm_compute in ("<<<M1699>>>" ++ check (runes_of_ascii "root packet /// triple
 rootA {	i32
 MetaDataX@calculatedFrom( ""CRC32"" ) `line1
-line2` `line1
+line2` , } MetaData BodyLength {
+rootA
+u8, } // c")).
+Eval vm_compute in ("<<<M1628>>>" ++ check (runes_of_ascii "} packet /// triple
+rootA {	i32
+MetaDataX@calculatedFrom( ""CRC32"" ) `line1
 line2` , } MetaData BodyLength {
 u8
 rootA, } // c")).
-Eval vm_compute in ("<<<M3860>>>" ++ check (runes_of_ascii "packet A {
+Eval vm_compute in ("<<<M723>>>" ++ check (runes_of_ascii "packet
+    // @lengthOf(
+    roots { u32 calculatedFrom @calculatedFrom(
+""\" ++ [233]%N ++ runes_of_ascii """ // @lengthOf(
+) // `tick` ""quote"" 'q'
+, }
+
+")).
+Eval vm_compute in ("<<<M1838>>>" ++ check (runes_of_ascii "packet
+    Pad // a // b
+{ i8i8 @calculatedFrom( ""a	b"") `u8 x,` ,
+} options true float// " ++ [128512]%N ++ runes_of_ascii " emoji
+= f64 i64_
+=//	t
+00 }
+")).
+Eval vm_compute in ("<<<M1826>>>" ++ check (runes_of_ascii "packet
+    Pad // a // b
+{ i8i8 @calculatedFrom( ""a	b"") `u8 x,` ,
+} } options{ float// " ++ [128512]%N ++ runes_of_ascii " emoji
+= f64 i64_
+=//	t
+00 }
+")).
+Eval vm_compute in ("<<<M3970>>>" ++ check (runes_of_ascii "MetaData string_ {
+    char[0123456789] Pad,
+    u128 Header ``,
+    Foo u8x,
+    leftPad trueish,
+    char[1] i64_,
+}")).
+Eval vm_compute in ("<<<M3023>>>" ++ check (runes_of_ascii "packet A {
     Inner {
-        u8 x `
-                `,
+        u8 x `a
+    b
+  c`,
         Deep {
-            u8 y `
-                        `,
+            u8 y `a
+    b
+  c`,
         },
     },
 }")).
-Eval vm_compute in ("<<<M3831>>>" ++ check (runes_of_ascii "
-MetaData
-	u128	{  char[	255 
-]  _x `{ , }`,	string leftPad
-
-, 
-u8  A ,
-zchar[	0123456789
-    ]Foo	,
-
-char[]
-As
-
-    `{ , }` ,
-
-} ")).
-Eval vm_compute in ("<<<M3471>>>" ++ check (runes_of_ascii "packet A {
-    u8 a,
-}
-packet B {
-    u16 b,
-}
-root packet P {
-    u8 K,
-    match K as M {
-        1 : A,
-        1 : B,
+Eval vm_compute in ("<<<M3052>>>" ++ check (runes_of_ascii "packet A {
+    match k as n {
+        ""x\
+y"" : B,
+        [""x\
+y"", 1] : C,
+        [1,2,3,4,5,""x\
+y""] : D,
+    },
+}")).
+Eval vm_compute in ("<<<M1840>>>" ++ check (runes_of_ascii "packet
+    Pad // a // b
+{ i8i8 @calculatedFrom( ""a	b"") `u8 x,` ,
+} options{ // " ++ [128512]%N ++ runes_of_ascii " emoji
+= f64 i64_
+=//	t
+00 }
+")).
+Eval vm_compute in ("<<<M48>>>" ++ check (runes_of_ascii "//x
+packet uint8x { u8 // packet A { u8 x, }
+roots `a\`	, match len
+as charz{
+[ 3 , """" ] : Z9_
+,
+    } , }
+")).
+Eval vm_compute in ("<<<M2966>>>" ++ check (runes_of_ascii "packet A {
+  match k as n {
+    [""a"", ""bb"", ""c c"", ""d"", ""e"", ""f"", ""g"", ""h"", ""i"", ""j""] : B
+    2 : C
+  },
+}")).
+Eval vm_compute in ("<<<M4396>>>" ++ check (runes_of_ascii "packet o {
+    @tag(42)
+    repeat x {
+        // c
+        char[0123456789] i64_,
     },
 }
-")).
-Eval vm_compute in ("<<<M1503>>>" ++ check (runes_of_ascii "root packet Foo // " ++ [128512]%N ++ runes_of_ascii " emoji
-{ } options {
-    // a // b
-    tag // `tick` ""quote"" 'q'
-= //	t
-""""
-    ; u8x = zchar[0  ] }
-MetaData")).
-Eval vm_compute in ("<<<M1707>>>" ++ check (runes_of_ascii "root packet /// triple
-rootA {	i32
-MetaDataX@calculatedFrom( ""CRC32"" ) `line1
-line2` , } MetaData BodyLength {
-u8
-rootA } // c")).
-Eval vm_compute in ("<<<M1831>>>" ++ check (runes_of_ascii "packet
-    Pad // a // b
-{ i8i8 @calculatedFrom( ""a	b"") `u8 x,` ,
-} options options{ float// " ++ [128512]%N ++ runes_of_ascii " emoji
-= f64 i64_
-=//	t
-00 }
-")).
-Eval vm_compute in ("<<<M1047>>>" ++ check (runes_of_ascii "options{
-//	t
-// " ++ [27880; 37322]%N ++ runes_of_ascii "
-falsey
-    // c
-    =7 u128
-    =""" ++ [233]%N ++ runes_of_ascii "t" ++ [233]%N ++ runes_of_ascii """ calculatedFrom
-// c
-// c
-= ""// no comment"" // trailing space 
+
+options {
 }")).
-Eval vm_compute in ("<<<M1866>>>" ++ check (runes_of_ascii "packet
-    Pad // a // b
-{ i8i8 @calculatedFrom( ""a	b"") `u8 x,` ,
-} options{ float// " ++ [128512]%N ++ runes_of_ascii " emoji
-= f64 i64_
-=//	t
-00 00 }
-")).
-Eval vm_compute in ("<<<M1828>>>" ++ check (runes_of_ascii "packet
-    Pad // a // b
-{ i8i8 @calculatedFrom( ""a	b"") `u8 x,` ,
-i8 options{ float// " ++ [128512]%N ++ runes_of_ascii " emoji
-= f64 i64_
-=//	t
-00 }
-")).
-Eval vm_compute in ("<<<M1832>>>" ++ check (runes_of_ascii "packet
-    Pad // a // b
-{ i8i8 @calculatedFrom( ""a	b"") `u8 x,` ,
-} {options float// " ++ [128512]%N ++ runes_of_ascii " emoji
-= f64 i64_
-=//	t
-00 }
-")).
-Eval vm_compute in ("<<<M254>>>" ++ check (runes_of_ascii "options { i8i8= char[]
-    ; } packet
-MetaDataX{ @calculatedFrom( ""x y"" )int32 T `" ++ [28040; 24687; 31867; 22411]%N ++ runes_of_ascii "` ,
-    f64 matchKey
-    , }")).
-Eval vm_compute in ("<<<M501>>>" ++ check (runes_of_ascii "options { u128 =  zchar[	255 ] ;  Pad=
-00 x_y_z= i16 Header  = ""\n""  ;  }
-    root packet
-BodyLength {//x
-}
-//x
-")).
-Eval vm_compute in ("<<<M250>>>" ++ check (runes_of_ascii "
-MetaData	Logon {	zchar[ 10 ]float `" ++ [233]%N ++ runes_of_ascii "` , BodyLength Z9_ , float32 o `a\` ,uint64 roots `two words` // " ++ [27880; 37322]%N ++ runes_of_ascii "
-,  }
-")).
-Eval vm_compute in ("<<<M511>>>" ++ check (runes_of_ascii "
+Eval vm_compute in ("<<<M3362>>>" ++ check (runes_of_ascii "packet calculatedFrom { @tag( 4294967296 ) u msg_type , char[ 3 ]
+// c
+crc @lengthOf( len ) `u8 x,` , }")).
+Eval vm_compute in ("<<<M2980>>>" ++ check (runes_of_ascii "packet A {
+  match k as n {
+    [1, ""bb"", 007, ""d"", 5, ""f"", 7, ""h"", 9, ""j"", 11] : B,
+    2 : C
+  },
+}")).
+Eval vm_compute in ("<<<M572>>>" ++ check (runes_of_ascii "MetaData //	t
+calculatedFrom {	uint32 trueish`crlf
+line`
+, i32 roots `doc`
+,float64 lengthOf
+,}")).
+Eval vm_compute in ("<<<M393>>>" ++ check (runes_of_ascii "MetaData len {
+i64
+tag `// not a comment`
+, int32 i8i8
+,
+crc
+    i8i8 `{ , }` ,} // @lengthOf(")).
+Eval vm_compute in ("<<<M3238>>>" ++ check (runes_of_ascii "packet Logon { @tag( 42 ) @rightPad ( ' ' ) @leftPad ( // c
+) repeat trueish { string T , } , }")).
+Eval vm_compute in ("<<<M2971>>>" ++ check (runes_of_ascii "packet A {
+  match k as n {
+    [1, 22, ""c c"", 4, 5, ""f"", 7, 8, ""i"", 10] : B,
+    2 : C
+  },
+}")).
+Eval vm_compute in ("<<<M2299>>>" ++ check (runes_of_ascii "MetaData Packet { }packet	asx  { @lengthOf( asx) falsey`crlf
+line`
+,
+    }
+    packet x	{")).
+Eval vm_compute in ("<<<M2959>>>" ++ check (runes_of_ascii "packet A {
+  match k as n {
+    [1, 22, ""c c"", 4, 5, ""f"", 7, 8, ""i""] : B
+    2 : C
+  },
+}")).
+Eval vm_compute in ("<<<M3021>>>" ++ check (runes_of_ascii "packet A {
+    B b `a
+    b
+  c`,
+    B `a
+    b
+  c`,
+    repeat B bs `a
+    b
+  c`,
+}")).
+Eval vm_compute in ("<<<M4391>>>" ++ check (runes_of_ascii "
+
+  // c
 MetaData
-crc { MetaDataX pack
-    //x
-    ,
-/// triple
-// c
-}
-    MetaData repeatCount
-{
-// " ++ [128512]%N ++ runes_of_ascii " emoji
-//
+
+    _x
+
+{	zchar[ 4294967296	]
+    lengthOf`// not a comment`,
 }
 ")).
-Eval vm_compute in ("<<<M3016>>>" ++ check (runes_of_ascii "packet A {
-    u16 len @lengthOf(body) `
-`,
-    u32 crc @calculatedFrom(""CRC32"") `
-`,
-    string body,
-}")).
-Eval vm_compute in ("<<<M3355>>>" ++ check (runes_of_ascii "packet calculatedFrom { @tag( 4294967296 ) u msg_type , // c
-char[ 3 ] crc @lengthOf( len ) `u8 x,` , }")).
-Eval vm_compute in ("<<<M62>>>" ++ check (runes_of_ascii "
-options{metadata
-    =
-// @lengthOf(
-// @lengthOf(
-""a	b"" u = 0
-; // trailing space 
-i8i8 = 0
-;	} 	 ")).
-Eval vm_compute in ("<<<M2984>>>" ++ check (runes_of_ascii "packet A {
-  match k as n {
-    [1, 22, ""c c"", 4, 5, ""f"", 7, 8, ""i"", 10, 11] : B,
-    2 : C
-  },
-}")).
-Eval vm_compute in ("<<<M327>>>" ++ check (runes_of_ascii "MetaData
-    // " ++ [128512]%N ++ runes_of_ascii " emoji
-    msg_type { As  roots , i32  rootA, f64 falsey  ,
-char[]
-rootA ,}
-")).
-Eval vm_compute in ("<<<M3237>>>" ++ check (runes_of_ascii "packet Logon { @tag( 42 ) @rightPad ( ' ' ) @leftPad
-// c
-( ) repeat trueish { string T , } , }")).
-Eval vm_compute in ("<<<M2947>>>" ++ check (runes_of_ascii "packet A {
-  match k as n {
-    [""a"", ""bb"", 007, ""d"", ""e"", 66, ""g"", ""h""] : B,
-    2 : C
-  },
-}")).
-Eval vm_compute in ("<<<M3579>>>" ++ check (runes_of_ascii "root
-	packet
-
-    u 
-        //	t
-
-//	t
-    {
-
-Foo
-
-int
-
-,  // `tick` ""quote"" 'q'
-	  }
-
-")).
-Eval vm_compute in ("<<<M282>>>" ++ check (runes_of_ascii "MetaData charz {
-Pad tag `two words` ,
-    u32 matchKey ,u128 Foo ,
-char[ 255 ] body ,}
-")).
-Eval vm_compute in ("<<<M2014>>>" ++ check (runes_of_ascii "root
+Eval vm_compute in ("<<<M2001>>>" ++ check (runes_of_ascii "root
 packet crc
     { f32a @calculatedFrom( """ ++ [233]%N ++ runes_of_ascii "t" ++ [233]%N ++ runes_of_ascii """ )
-    `say ""hi""`, lengthOf i64 ,  }")).
-Eval vm_compute in ("<<<M2008>>>" ++ check (runes_of_ascii "root
+    `say ""hi""` lengthOf `` ,  }")).
+Eval vm_compute in ("<<<M2024>>>" ++ check (runes_of_ascii "root
 packet crc
     { f32a @calculatedFrom( """ ++ [233]%N ++ runes_of_ascii "t" ++ [233]%N ++ runes_of_ascii """ )
-    `say ""hi""`, `` lengthOf ,  }")).
-Eval vm_compute in ("<<<M2922>>>" ++ check (runes_of_ascii "packet A {
-  match k as n {
-    [""a"", ""bb"", 007, ""d"", ""e"", 66] : B
-    2 : C
-  },
-}")).
-Eval vm_compute in ("<<<M3296>>>" ++ check (runes_of_ascii "packet o // c
-{ @tag( 42 ) repeat x { char[ 0123456789 ] i64_ , } , } options { }")).
-Eval vm_compute in ("<<<M3328>>>" ++ check (runes_of_ascii "packet o { @tag( 42 ) repeat x { char[ 0123456789 ] i64_ , } , } options // c
-{ }")).
-Eval vm_compute in ("<<<M2919>>>" ++ check (runes_of_ascii "packet A {
-  match k as n {
-    [1, 22, ""c c"", 4, 5, ""f""] : B,
-    2 : C
-  },
-}")).
-Eval vm_compute in ("<<<M2199>>>" ++ check (runes_of_ascii "root
-    // `tick` ""quote"" 'q'
-    packet As @lengthOf { trueish Packet , }
-")).
-Eval vm_compute in ("<<<M3424>>>" ++ check (runes_of_ascii "packet Inner {
-    u8 a,
-}
-root packet P {
-    Inner ref_obj,
-    u8 x,
-}
-")).
-Eval vm_compute in ("<<<M698>>>" ++ check (runes_of_ascii "root packet Z9_{ @rightPad(
-    ) packetx `" ++ [233]%N ++ runes_of_ascii "` , }
-root packet falsey {}")).
-Eval vm_compute in ("<<<M3400>>>" ++ check (runes_of_ascii "MetaData _x {
+    `say ""hi""`, lengthOf `` ,")).
+Eval vm_compute in ("<<<M3305>>>" ++ check (runes_of_ascii "packet o { @tag( 42 )
 // c
-zchar[ 4294967296 ] lengthOf `// not a comment` , }")).
-Eval vm_compute in ("<<<M269>>>" ++ check (runes_of_ascii "MetaData u8x { uint32 i8i8 `it's`, } options
-{
-    Logon
-= '0'	; }
-")).
-Eval vm_compute in ("<<<M2202>>>" ++ check (runes_of_ascii "root
-    // `tick` ""quote"" 'q'
-    packet As\ { trueish Packet , }
-")).
-Eval vm_compute in ("<<<M3465>>>" ++ check (runes_of_ascii "root packet P {
-    u8 s_u8,
-    repeat u8 r_u8,
-    u16 b_len,
+repeat x { char[ 0123456789 ] i64_ , } , } options { }")).
+Eval vm_compute in ("<<<M4457>>>" ++ check (runes_of_ascii "root packet options1 {
+    @calculatedFrom(""" ++ [128512]%N ++ runes_of_ascii """)
+    u8x @calculatedFrom(""a\\""),
+}")).
+Eval vm_compute in ("<<<M3779>>>" ++ check (runes_of_ascii "MetaData M {
+    u8 x `a
+        
+        b`,
+    T t `a
+        
+        b`,
+}")).
+Eval vm_compute in ("<<<M989>>>" ++ check (runes_of_ascii "packet falsey {
+} options{
 }
+    options{
+body
+= '0' } MetaData o
+{
+    }
 ")).
-Eval vm_compute in ("<<<M4366>>>" ++ check (runes_of_ascii "  root  
-  // @lengthOf(
-	// @lengthOf(
-
-packet f32a
-    {
-	}
-
+Eval vm_compute in ("<<<M2906>>>" ++ check (runes_of_ascii "packet A {
+  match k as n {
+    [1, 22, ""c c"", 4, 5] : B,
+    2 : C
+  },
+}")).
+Eval vm_compute in ("<<<M146>>>" ++ check (runes_of_ascii "// `tick` ""quote"" 'q'
+options { leftPad =float32
+} root
+packet o
+{ }
 ")).
-Eval vm_compute in ("<<<M1916>>>" ++ check (runes_of_ascii "
-packet	As { @calculatedFrom(//x
-""{,}"" ""{,}""	)lengthOf , } 	 ")).
-Eval vm_compute in ("<<<M366>>>" ++ check (runes_of_ascii "
-packet Logon{ match
-    float as trueish { 3 : int } , }
+Eval vm_compute in ("<<<M3397>>>" ++ check (runes_of_ascii "MetaData _x // c
+{ zchar[ 4294967296 ] lengthOf `// not a comment` , }")).
+Eval vm_compute in ("<<<M3633>>>" ++ check (runes_of_ascii "packet falsey{ } 
+options	{}options 
+{
+body = 
+'0'
+	} MetaData
 
+o{
+
+}")).
+Eval vm_compute in ("<<<M1032>>>" ++ check (runes_of_ascii "options { Logon
+=
+    /// triple
+    4294967296 metadata = """ ++ [28040; 24687]%N ++ runes_of_ascii """ }
+")).
+Eval vm_compute in ("<<<M3009>>>" ++ check (runes_of_ascii "packet A {
+    B b `a
+b`,
+    B `a
+b`,
+    repeat B bs `a
+b`,
+}")).
+Eval vm_compute in ("<<<M3268>>>" ++ check (runes_of_ascii "options { // c1
+u8x // c2a
+  // c2b
+= // c3a
+  // c3b
+3 } // c5
+")).
+Eval vm_compute in ("<<<M546>>>" ++ check (runes_of_ascii "options
+// c
+// a // b
+{
+packetx=
+    1 ;
+    body =char[] }")).
+Eval vm_compute in ("<<<M1210>>>" ++ check (runes_of_ascii "options
+    {matchKey // `tick` ""quote"" 'q'
+='0' // " ++ [27880; 37322]%N ++ runes_of_ascii "
+; }
 ")).
 Eval vm_compute in ("<<<M1906>>>" ++ check (runes_of_ascii "
 packet	As { { @calculatedFrom(//x
 ""{,}""	)lengthOf , } 	 ")).
-Eval vm_compute in ("<<<M2706>>>" ++ check (runes_of_ascii "; f64 ; ' ' [ as char[] } : float32 char[] '\x00' char[]")).
-Eval vm_compute in ("<<<M3155>>>" ++ check (runes_of_ascii "packet A { match k as n { 1 : B // a // b 2 : C }, }")).
-Eval vm_compute in ("<<<M2401>>>" ++ check (runes_of_ascii "MetaData A
-{
-i64
-@x chars	, } // `tick` ""quote"" 'q'")).
-Eval vm_compute in ("<<<M547>>>" ++ check (runes_of_ascii "
-options {
-    tag
-=i32
-    zchar =
-    ""\n""; }
-")).
-Eval vm_compute in ("<<<M3418>>>" ++ check (runes_of_ascii "root packet P {
-    repeat char cs,
+Eval vm_compute in ("<<<M1954>>>" ++ check (runes_of_ascii "
+packet	As { @calculatedFrom(//x
+""{,}""	)le""ngthOf , } 	 ")).
+Eval vm_compute in ("<<<M4127>>>" ++ check (runes_of_ascii "packet A {
     u8 x,
-}
-")).
-Eval vm_compute in ("<<<M591>>>" ++ check (runes_of_ascii "
-root
-packet BodyLength { } packet uint8x { }")).
-Eval vm_compute in ("<<<M2812>>>" ++ check (runes_of_ascii "@tag( `tab	here` repeat int16 zchar[ uint64 )")).
-Eval vm_compute in ("<<<M2599>>>" ++ check (runes_of_ascii "packet A { B { match k as n { 1 : C }, }, }")).
-Eval vm_compute in ("<<<M866>>>" ++ check (runes_of_ascii "packet
-o
-//	t
-// `tick` ""quote"" 'q'
-{
-}
-")).
-Eval vm_compute in ("<<<M2112>>>" ++ check (runes_of_ascii "MetaData x
-f64// " ++ [128512]%N ++ runes_of_ascii " emoji
-i16 stringy , }")).
-Eval vm_compute in ("<<<M3415>>>" ++ check (runes_of_ascii "root packet P {
-    char c,
-    u8 x,
-}
-")).
-Eval vm_compute in ("<<<M1738>>>" ++ check (runes_of_ascii " { }options {  } // `tick` ""quote"" 'q'")).
-Eval vm_compute in ("<<<M2405>>>" ++ check (runes_of_ascii "MetaData A
-{
-i64
-chars	, } // `tick` ")).
-Eval vm_compute in ("<<<M4149>>>" ++ check (runes_of_ascii "// packet A { u8 x, }
-  options{
-}
-")).
-Eval vm_compute in ("<<<M2799>>>" ++ check (runes_of_ascii "Y'; XMxS`r%e+3e8IXpIp]:H8_+-WZ@@1,")).
-Eval vm_compute in ("<<<M2829>>>" ++ check ([127; 65533; 65533; 65533; 65533]%N ++ runes_of_ascii "Cx" ++ [65533]%N ++ runes_of_ascii "Z" ++ [20; 28; 65533; 65533]%N ++ runes_of_ascii "b" ++ [65533; 65533; 65533; 65533]%N ++ runes_of_ascii "g" ++ [65533]%N ++ runes_of_ascii "`P" ++ [3; 65533]%N ++ runes_of_ascii "j" ++ [65533; 65533]%N ++ runes_of_ascii "&" ++ [26; 65533]%N ++ runes_of_ascii "z" ++ [65533]%N)).
-Eval vm_compute in ("<<<M444>>>" ++ check (runes_of_ascii "packet
-//	t
-/// triple
-Z9_
-{ }")).
-Eval vm_compute in ("<<<M3692>>>" ++ check (runes_of_ascii "
-packet
-	A 
-{
-    }
-	// c" ++ [8232]%N ++ runes_of_ascii "
- 
-")).
-Eval vm_compute in ("<<<M2688>>>" ++ check (runes_of_ascii "Li][ahWRkj9ULC5)4z,vi9B>n""<h")).
-Eval vm_compute in ("<<<M3560>>>" ++ check (runes_of_ascii "packet A {
-    char[3] x,
+}// a
+
+// b
+packet B {
+}// c
+// d")).
+Eval vm_compute in ("<<<M3048>>>" ++ check (runes_of_ascii "MetaData M {
+    u8 x `tab
+	x`,
+    T t `tab
+	x`,
 }")).
-Eval vm_compute in ("<<<M642>>>" ++ check (runes_of_ascii "packet u{
-    } // a // b")).
-Eval vm_compute in ("<<<M746>>>" ++ check (runes_of_ascii "// a // b
- // @lengthOf(")).
-Eval vm_compute in ("<<<M3383>>>" ++ check (runes_of_ascii "packet
+Eval vm_compute in ("<<<M1329>>>" ++ check (runes_of_ascii "packet As  {
+//x
+// " ++ [128512]%N ++ runes_of_ascii " emoji
+repeat
+char zchar , }")).
+Eval vm_compute in ("<<<M4239>>>" ++ check (runes_of_ascii "  MetaData zchar
+{	// c
+    zchar[ 3 ]
+Pad  , }")).
+Eval vm_compute in ("<<<M4492>>>" ++ check (runes_of_ascii "
 // c
-lengthOf { }")).
-Eval vm_compute in ("<<<M415>>>" ++ check (runes_of_ascii "// packet A { u8 x, }
+	MetaData
+zchar 
+{	zchar[ 3 ]
+	Pad
+
+,}
 ")).
-Eval vm_compute in ("<<<M2061>>>" ++ check (runes_of_ascii "MetaData A {  pack, }")).
-Eval vm_compute in ("<<<M2699>>>" ++ check ([65533; 65533]%N ++ runes_of_ascii "0" ++ [65533; 5; 65533]%N ++ runes_of_ascii "b_" ++ [65533]%N ++ runes_of_ascii "!" ++ [11; 65533; 65533; 65533; 29; 65533]%N ++ runes_of_ascii "XR" ++ [65533]%N ++ runes_of_ascii ";")).
-Eval vm_compute in ("<<<M4344>>>" ++ check (runes_of_ascii "root packet Z9_ {
+Eval vm_compute in ("<<<M2647>>>" ++ check (runes_of_ascii "MetaData M { u8 x `d` , y z `e`, char[3] w, }")).
+Eval vm_compute in ("<<<M1155>>>" ++ check (runes_of_ascii "MetaData	u8x {
+// a // b
+// c
+chars crc, }
+")).
+Eval vm_compute in ("<<<M76>>>" ++ check (runes_of_ascii "options { repeatCount= 00 ; }
+// " ++ [128512]%N ++ runes_of_ascii " emoji
+")).
+Eval vm_compute in ("<<<M2110>>>" ++ check (runes_of_ascii "MetaData x
+{ {// " ++ [128512]%N ++ runes_of_ascii " emoji
+i16 stringy , }")).
+Eval vm_compute in ("<<<M3205>>>" ++ check (runes_of_ascii "MetaData zchar { zchar[ 3 ] Pad ,
+// c
 }")).
-Eval vm_compute in ("<<<M3086>>>" ++ check (runes_of_ascii "packet A {
+Eval vm_compute in ("<<<M1738>>>" ++ check (runes_of_ascii " { }options {  } // `tick` ""quote"" 'q'")).
+Eval vm_compute in ("<<<M2109>>>" ++ check (runes_of_ascii "MetaData x
+// " ++ [128512]%N ++ runes_of_ascii " emoji
+i16 stringy , }")).
+Eval vm_compute in ("<<<M197>>>" ++ check (runes_of_ascii "  options { leftPad =	""it's""
+    }
+")).
+Eval vm_compute in ("<<<M3843>>>" ++ check (runes_of_ascii "
+options
+
+{	falsey
+    = false
+	} ")).
+Eval vm_compute in ("<<<M3128>>>" ++ check (runes_of_ascii "packet A {
+ u8 x `d 	`, // c 	
+}")).
+Eval vm_compute in ("<<<M2085>>>" ++ check (runes_of_ascii "MetaD'\x01'ata A { u64 pack, }")).
+Eval vm_compute in ("<<<M1641>>>" ++ check (runes_of_ascii "root packet /// triple
+rootA")).
+Eval vm_compute in ("<<<M3002>>>" ++ check (runes_of_ascii "packet A {
+    u8 x `a
+b`,
+}")).
+Eval vm_compute in ("<<<M288>>>" ++ check (runes_of_ascii "packet
+repeatCount {
+    }")).
+Eval vm_compute in ("<<<M1720>>>" ++ check (runes_of_ascii "root packet /// triple
+r")).
+Eval vm_compute in ("<<<M1034>>>" ++ check (runes_of_ascii "root packet a1 //	t
+{ }")).
+Eval vm_compute in ("<<<M3386>>>" ++ check (runes_of_ascii "packet lengthOf { // c
+}")).
+Eval vm_compute in ("<<<M319>>>" ++ check (runes_of_ascii "MetaData
+    i64_ { }
+")).
+Eval vm_compute in ("<<<M2075>>>" ++ check (runes_of_ascii "MetaData A { u64 pack")).
+Eval vm_compute in ("<<<M2768>>>" ++ check (runes_of_ascii "} float64 ""a	b"" : u8")).
+Eval vm_compute in ("<<<M3994>>>" ++ check (runes_of_ascii "
+
+  packet float{} ")).
+Eval vm_compute in ("<<<M3076>>>" ++ check (runes_of_ascii "packet A {
 }
-// c" ++ [8192]%N)).
-Eval vm_compute in ("<<<M2229>>>" ++ check (runes_of_ascii "MetaData Packet {")).
-Eval vm_compute in ("<<<M3167>>>" ++ check (runes_of_ascii "options { // a
- }")).
-Eval vm_compute in ("<<<M2564>>>" ++ check (runes_of_ascii "packet A { u8 }")).
-Eval vm_compute in ("<<<M2751>>>" ++ check ([26; 21]%N ++ runes_of_ascii "G" ++ [65533]%N ++ runes_of_ascii "t~" ++ [28]%N ++ runes_of_ascii "?" ++ [65533]%N ++ runes_of_ascii "w" ++ [65533; 65533]%N)).
-Eval vm_compute in ("<<<M2113>>>" ++ check (runes_of_ascii "MetaData x")).
-Eval vm_compute in ("<<<M2806>>>" ++ check ([65533]%N ++ runes_of_ascii ">e" ++ [65533]%N ++ runes_of_ascii "ka(" ++ [65533]%N)).
-Eval vm_compute in ("<<<M2454>>>" ++ check (runes_of_ascii "option")).
-Eval vm_compute in ("<<<M2487>>>" ++ check (runes_of_ascii "@tag(")).
-Eval vm_compute in ("<<<M2081>>>" ++ check (runes_of_ascii "Meta")).
-Eval vm_compute in ("<<<M2469>>>" ++ check (runes_of_ascii "' '")).
-Eval vm_compute in ("<<<M2473>>>" ++ check (runes_of_ascii "''")).
-Eval vm_compute in ("<<<M2673>>>" ++ check (runes_of_ascii "x")).
+// c" ++ [133]%N)).
+Eval vm_compute in ("<<<M1063>>>" ++ check (runes_of_ascii "packet x_y_z {
+}
+")).
+Eval vm_compute in ("<<<M3129>>>" ++ check (runes_of_ascii "packet A {
+}// c" ++ [8203]%N)).
+Eval vm_compute in ("<<<M2491>>>" ++ check (runes_of_ascii "@calculatedFrom")).
+Eval vm_compute in ("<<<M3649>>>" ++ check (runes_of_ascii "
+options
+{ } ")).
+Eval vm_compute in ("<<<M2483>>>" ++ check (runes_of_ascii "@centerPad")).
+Eval vm_compute in ("<<<M1904>>>" ++ check (runes_of_ascii "
+packet")).
+Eval vm_compute in ("<<<M2555>>>" ++ check (runes_of_ascii "// " ++ [233]%N ++ runes_of_ascii "
+" ++ [21517]%N)).
+Eval vm_compute in ("<<<M2786>>>" ++ check ([65533; 17; 65533; 31; 65533]%N)).
+Eval vm_compute in ("<<<M2488>>>" ++ check (runes_of_ascii "@tag")).
+Eval vm_compute in ("<<<M2521>>>" ++ check (runes_of_ascii "`\`")).
+Eval vm_compute in ("<<<M2518>>>" ++ check (runes_of_ascii "`a")).
+Eval vm_compute in ("<<<M2763>>>" ++ check ([65533]%N)).
